@@ -69,7 +69,8 @@ T0 == BuildTree(1, [live |-> [n \in Notes |-> "none"], notified |-> [n \in Notes
     vcount = [t \in Threads |-> 0],           \* wake-ups given to t's semaphore (by "semv" or by a notifier) not yet reported by a 0 return
     uaf = FALSE,                              \* some step touched a note after nsync_note_free of it had returned
     taint4 = FALSE,                           \* known finding 6.4: a child was adopted by a note whose notifier had finished its children loop
-    taint5 = FALSE;                           \* known finding 6.5: a notifier queued for a parent from which its note was unlinked meanwhile
+    taint5 = FALSE,                           \* known finding 6.5: a notifier queued for a parent from which its note was unlinked meanwhile
+    taint6 = FALSE;                           \* known finding 6.6: the same window in nsync_note_free
 
   define {
     CurOp(t) == Prog[t][ip[t]]
@@ -175,7 +176,8 @@ T0 == BuildTree(1, [live |-> [n \in Notes |-> "none"], notified |-> [n \in Notes
    nf_1_l:   if (fp = 0) { goto nf_5_l; };
    nf_2_r:   if (lk[fp] = 0) { lk[fp] := self; goto nf_5_l; };               \* note.c:203 nsync_mu_trylock
    nf_3_ul:  lk[fn] := 0;                                                    \* note.c:204
-   nf_4_lk:  await lk[fp] = 0; lk[fp] := self; uaf := uaf \/ Touch(fp);      \* note.c:205
+   nf_4_lk:  await lk[fp] = 0; lk[fp] := self; uaf := uaf \/ Touch(fp);      \* note.c:205 (parent pointer saved before n's lock was dropped)
+             taint6 := taint6 \/ (par[fn] # fp);
    nf_4b_lk: await lk[fn] = 0; lk[fn] := self;                               \* note.c:206
    nf_5_l:   fk := kids[fn]; fi := 1;
    nf_k_l:   if (fi > Len(fk)) { goto nf_8_r; };
@@ -364,7 +366,7 @@ CONSTANT defaultInitValue
 VARIABLES pc, live, notified, exp, par, kids, wts, disc, lk, nww, sem, cval, 
           cwaited, cq, clk, nwc, cmu, badmu, cz, now, ip, ret, dres, called, 
           dl0, lpar, wfor, freeing, badret, vcount, uaf, taint4, taint5, 
-          stack
+          taint6, stack
 
 (* define statement *)
 CurOp(t) == Prog[t][ip[t]]
@@ -383,9 +385,10 @@ VARIABLES cn, cp, i, klist, w, tn, p, dn, nt, xn, xcl, wn, wp, wdl, fail, fn,
 vars == << pc, live, notified, exp, par, kids, wts, disc, lk, nww, sem, cval, 
            cwaited, cq, clk, nwc, cmu, badmu, cz, now, ip, ret, dres, called, 
            dl0, lpar, wfor, freeing, badret, vcount, uaf, taint4, taint5, 
-           stack, cn, cp, i, klist, w, tn, p, dn, nt, xn, xcl, wn, wp, wdl, 
-           fail, fn, fp, fi, fk, cdl, cv, cwk, objs, adl, single, wm, k, rt, 
-           cnt, rdy, enq, wq, unl, sdl, scn, sct, sldl, snear, sso, st, pn >>
+           taint6, stack, cn, cp, i, klist, w, tn, p, dn, nt, xn, xcl, wn, wp, 
+           wdl, fail, fn, fp, fi, fk, cdl, cv, cwk, objs, adl, single, wm, k, 
+           rt, cnt, rdy, enq, wq, unl, sdl, scn, sct, sldl, snear, sso, st, 
+           pn >>
 
 ProcSet == (Threads)
 
@@ -422,6 +425,7 @@ Init == (* Global variables *)
         /\ uaf = FALSE
         /\ taint4 = FALSE
         /\ taint5 = FALSE
+        /\ taint6 = FALSE
         (* Procedure notify_child *)
         /\ cn = [ self \in ProcSet |-> defaultInitValue]
         /\ cp = [ self \in ProcSet |-> defaultInitValue]
@@ -493,10 +497,11 @@ nc_1_ld(self) == /\ pc[self] = "nc_1_ld"
                                  nww, sem, cval, cwaited, cq, clk, nwc, cmu, 
                                  badmu, cz, now, ip, ret, dres, called, dl0, 
                                  lpar, wfor, freeing, badret, vcount, taint4, 
-                                 taint5, tn, p, dn, nt, xn, xcl, wn, wp, wdl, 
-                                 fail, fn, fp, fi, fk, cdl, cv, cwk, objs, adl, 
-                                 single, wm, k, rt, cnt, rdy, enq, wq, unl, 
-                                 sdl, scn, sct, sldl, snear, sso, st, pn >>
+                                 taint5, taint6, tn, p, dn, nt, xn, xcl, wn, 
+                                 wp, wdl, fail, fn, fp, fi, fk, cdl, cv, cwk, 
+                                 objs, adl, single, wm, k, rt, cnt, rdy, enq, 
+                                 wq, unl, sdl, scn, sct, sldl, snear, sso, st, 
+                                 pn >>
 
 nc_2_st(self) == /\ pc[self] = "nc_2_st"
                  /\ notified' = [notified EXCEPT ![cn[self]] = 1]
@@ -505,11 +510,11 @@ nc_2_st(self) == /\ pc[self] = "nc_2_st"
                                  cval, cwaited, cq, clk, nwc, cmu, badmu, cz, 
                                  now, ip, ret, dres, called, dl0, lpar, wfor, 
                                  freeing, badret, vcount, uaf, taint4, taint5, 
-                                 stack, cn, cp, i, klist, w, tn, p, dn, nt, xn, 
-                                 xcl, wn, wp, wdl, fail, fn, fp, fi, fk, cdl, 
-                                 cv, cwk, objs, adl, single, wm, k, rt, cnt, 
-                                 rdy, enq, wq, unl, sdl, scn, sct, sldl, snear, 
-                                 sso, st, pn >>
+                                 taint6, stack, cn, cp, i, klist, w, tn, p, dn, 
+                                 nt, xn, xcl, wn, wp, wdl, fail, fn, fp, fi, 
+                                 fk, cdl, cv, cwk, objs, adl, single, wm, k, 
+                                 rt, cnt, rdy, enq, wq, unl, sdl, scn, sct, 
+                                 sldl, snear, sso, st, pn >>
 
 nc_w_l(self) == /\ pc[self] = "nc_w_l"
                 /\ IF wts[cn[self]] = <<>>
@@ -525,11 +530,11 @@ nc_w_l(self) == /\ pc[self] = "nc_w_l"
                                 sem, cval, cwaited, cq, clk, nwc, cmu, badmu, 
                                 cz, now, ip, ret, dres, called, dl0, lpar, 
                                 wfor, freeing, badret, vcount, uaf, taint4, 
-                                taint5, stack, cn, cp, tn, p, dn, nt, xn, xcl, 
-                                wn, wp, wdl, fail, fn, fp, fi, fk, cdl, cv, 
-                                cwk, objs, adl, single, wm, k, rt, cnt, rdy, 
-                                enq, wq, unl, sdl, scn, sct, sldl, snear, sso, 
-                                st, pn >>
+                                taint5, taint6, stack, cn, cp, tn, p, dn, nt, 
+                                xn, xcl, wn, wp, wdl, fail, fn, fp, fi, fk, 
+                                cdl, cv, cwk, objs, adl, single, wm, k, rt, 
+                                cnt, rdy, enq, wq, unl, sdl, scn, sct, sldl, 
+                                snear, sso, st, pn >>
 
 nc_3_st(self) == /\ pc[self] = "nc_3_st"
                  /\ nww' = [nww EXCEPT ![w[self]][cn[self]] = 0]
@@ -538,11 +543,11 @@ nc_3_st(self) == /\ pc[self] = "nc_3_st"
                                  sem, cval, cwaited, cq, clk, nwc, cmu, badmu, 
                                  cz, now, ip, ret, dres, called, dl0, lpar, 
                                  wfor, freeing, badret, vcount, uaf, taint4, 
-                                 taint5, stack, cn, cp, i, klist, w, tn, p, dn, 
-                                 nt, xn, xcl, wn, wp, wdl, fail, fn, fp, fi, 
-                                 fk, cdl, cv, cwk, objs, adl, single, wm, k, 
-                                 rt, cnt, rdy, enq, wq, unl, sdl, scn, sct, 
-                                 sldl, snear, sso, st, pn >>
+                                 taint5, taint6, stack, cn, cp, i, klist, w, 
+                                 tn, p, dn, nt, xn, xcl, wn, wp, wdl, fail, fn, 
+                                 fp, fi, fk, cdl, cv, cwk, objs, adl, single, 
+                                 wm, k, rt, cnt, rdy, enq, wq, unl, sdl, scn, 
+                                 sct, sldl, snear, sso, st, pn >>
 
 nc_4_v(self) == /\ pc[self] = "nc_4_v"
                 /\ sem' = [sem EXCEPT ![w[self]] = sem[w[self]] + 1]
@@ -552,11 +557,11 @@ nc_4_v(self) == /\ pc[self] = "nc_4_v"
                                 nww, cval, cwaited, cq, clk, nwc, cmu, badmu, 
                                 cz, now, ip, ret, dres, called, dl0, lpar, 
                                 wfor, freeing, badret, uaf, taint4, taint5, 
-                                stack, cn, cp, i, klist, w, tn, p, dn, nt, xn, 
-                                xcl, wn, wp, wdl, fail, fn, fp, fi, fk, cdl, 
-                                cv, cwk, objs, adl, single, wm, k, rt, cnt, 
-                                rdy, enq, wq, unl, sdl, scn, sct, sldl, snear, 
-                                sso, st, pn >>
+                                taint6, stack, cn, cp, i, klist, w, tn, p, dn, 
+                                nt, xn, xcl, wn, wp, wdl, fail, fn, fp, fi, fk, 
+                                cdl, cv, cwk, objs, adl, single, wm, k, rt, 
+                                cnt, rdy, enq, wq, unl, sdl, scn, sct, sldl, 
+                                snear, sso, st, pn >>
 
 nc_k_l(self) == /\ pc[self] = "nc_k_l"
                 /\ IF i[self] > Len(klist[self])
@@ -568,11 +573,11 @@ nc_k_l(self) == /\ pc[self] = "nc_k_l"
                                 nww, sem, cval, cwaited, cq, clk, nwc, cmu, 
                                 badmu, cz, now, ip, ret, dres, called, dl0, 
                                 lpar, freeing, badret, vcount, uaf, taint4, 
-                                taint5, stack, cn, cp, i, klist, w, tn, p, dn, 
-                                nt, xn, xcl, wn, wp, wdl, fail, fn, fp, fi, fk, 
-                                cdl, cv, cwk, objs, adl, single, wm, k, rt, 
-                                cnt, rdy, enq, wq, unl, sdl, scn, sct, sldl, 
-                                snear, sso, st, pn >>
+                                taint5, taint6, stack, cn, cp, i, klist, w, tn, 
+                                p, dn, nt, xn, xcl, wn, wp, wdl, fail, fn, fp, 
+                                fi, fk, cdl, cv, cwk, objs, adl, single, wm, k, 
+                                rt, cnt, rdy, enq, wq, unl, sdl, scn, sct, 
+                                sldl, snear, sso, st, pn >>
 
 nc_5_lk(self) == /\ pc[self] = "nc_5_lk"
                  /\ lk[klist[self][i[self]]] = 0
@@ -583,11 +588,11 @@ nc_5_lk(self) == /\ pc[self] = "nc_5_lk"
                                  nww, sem, cval, cwaited, cq, clk, nwc, cmu, 
                                  badmu, cz, now, ip, ret, dres, called, dl0, 
                                  lpar, wfor, freeing, badret, vcount, taint4, 
-                                 taint5, stack, cn, cp, i, klist, w, tn, p, dn, 
-                                 nt, xn, xcl, wn, wp, wdl, fail, fn, fp, fi, 
-                                 fk, cdl, cv, cwk, objs, adl, single, wm, k, 
-                                 rt, cnt, rdy, enq, wq, unl, sdl, scn, sct, 
-                                 sldl, snear, sso, st, pn >>
+                                 taint5, taint6, stack, cn, cp, i, klist, w, 
+                                 tn, p, dn, nt, xn, xcl, wn, wp, wdl, fail, fn, 
+                                 fp, fi, fk, cdl, cv, cwk, objs, adl, single, 
+                                 wm, k, rt, cnt, rdy, enq, wq, unl, sdl, scn, 
+                                 sct, sldl, snear, sso, st, pn >>
 
 nc_5_l(self) == /\ pc[self] = "nc_5_l"
                 /\ IF disc[klist[self][i[self]]] = 0
@@ -611,10 +616,11 @@ nc_5_l(self) == /\ pc[self] = "nc_5_l"
                                 nww, sem, cval, cwaited, cq, clk, nwc, cmu, 
                                 badmu, cz, now, ip, ret, dres, called, dl0, 
                                 lpar, wfor, freeing, badret, vcount, uaf, 
-                                taint4, taint5, tn, p, dn, nt, xn, xcl, wn, wp, 
-                                wdl, fail, fn, fp, fi, fk, cdl, cv, cwk, objs, 
-                                adl, single, wm, k, rt, cnt, rdy, enq, wq, unl, 
-                                sdl, scn, sct, sldl, snear, sso, st, pn >>
+                                taint4, taint5, taint6, tn, p, dn, nt, xn, xcl, 
+                                wn, wp, wdl, fail, fn, fp, fi, fk, cdl, cv, 
+                                cwk, objs, adl, single, wm, k, rt, cnt, rdy, 
+                                enq, wq, unl, sdl, scn, sct, sldl, snear, sso, 
+                                st, pn >>
 
 nc_6_ul(self) == /\ pc[self] = "nc_6_ul"
                  /\ lk' = [lk EXCEPT ![klist[self][i[self]]] = 0]
@@ -624,11 +630,11 @@ nc_6_ul(self) == /\ pc[self] = "nc_6_ul"
                                  nww, sem, cval, cwaited, cq, clk, nwc, cmu, 
                                  badmu, cz, now, ip, ret, dres, called, dl0, 
                                  lpar, wfor, freeing, badret, vcount, uaf, 
-                                 taint4, taint5, stack, cn, cp, klist, w, tn, 
-                                 p, dn, nt, xn, xcl, wn, wp, wdl, fail, fn, fp, 
-                                 fi, fk, cdl, cv, cwk, objs, adl, single, wm, 
-                                 k, rt, cnt, rdy, enq, wq, unl, sdl, scn, sct, 
-                                 sldl, snear, sso, st, pn >>
+                                 taint4, taint5, taint6, stack, cn, cp, klist, 
+                                 w, tn, p, dn, nt, xn, xcl, wn, wp, wdl, fail, 
+                                 fn, fp, fi, fk, cdl, cv, cwk, objs, adl, 
+                                 single, wm, k, rt, cnt, rdy, enq, wq, unl, 
+                                 sdl, scn, sct, sldl, snear, sso, st, pn >>
 
 nc_7_r(self) == /\ pc[self] = "nc_7_r"
                 /\ IF kids[cn[self]] # <<>>
@@ -640,11 +646,11 @@ nc_7_r(self) == /\ pc[self] = "nc_7_r"
                                 sem, cval, cwaited, cq, clk, nwc, cmu, badmu, 
                                 cz, now, ip, ret, dres, called, dl0, lpar, 
                                 wfor, freeing, badret, vcount, uaf, taint4, 
-                                taint5, stack, cn, cp, i, klist, w, tn, p, dn, 
-                                nt, xn, xcl, wn, wp, wdl, fail, fn, fp, fi, fk, 
-                                cdl, cv, cwk, objs, adl, single, wm, k, rt, 
-                                cnt, rdy, enq, wq, unl, sdl, scn, sct, sldl, 
-                                snear, sso, st, pn >>
+                                taint5, taint6, stack, cn, cp, i, klist, w, tn, 
+                                p, dn, nt, xn, xcl, wn, wp, wdl, fail, fn, fp, 
+                                fi, fk, cdl, cv, cwk, objs, adl, single, wm, k, 
+                                rt, cnt, rdy, enq, wq, unl, sdl, scn, sct, 
+                                sldl, snear, sso, st, pn >>
 
 nc_8_lk(self) == /\ pc[self] = "nc_8_lk"
                  /\ lk[cn[self]] = 0 /\ kids[cn[self]] = <<>>
@@ -654,11 +660,11 @@ nc_8_lk(self) == /\ pc[self] = "nc_8_lk"
                                  nww, sem, cval, cwaited, cq, clk, nwc, cmu, 
                                  badmu, cz, now, ip, ret, dres, called, dl0, 
                                  lpar, wfor, freeing, badret, vcount, uaf, 
-                                 taint4, taint5, stack, cn, cp, i, klist, w, 
-                                 tn, p, dn, nt, xn, xcl, wn, wp, wdl, fail, fn, 
-                                 fp, fi, fk, cdl, cv, cwk, objs, adl, single, 
-                                 wm, k, rt, cnt, rdy, enq, wq, unl, sdl, scn, 
-                                 sct, sldl, snear, sso, st, pn >>
+                                 taint4, taint5, taint6, stack, cn, cp, i, 
+                                 klist, w, tn, p, dn, nt, xn, xcl, wn, wp, wdl, 
+                                 fail, fn, fp, fi, fk, cdl, cv, cwk, objs, adl, 
+                                 single, wm, k, rt, cnt, rdy, enq, wq, unl, 
+                                 sdl, scn, sct, sldl, snear, sso, st, pn >>
 
 nc_9_l(self) == /\ pc[self] = "nc_9_l"
                 /\ IF cp[self] # 0
@@ -678,9 +684,9 @@ nc_9_l(self) == /\ pc[self] = "nc_9_l"
                 /\ UNCHANGED << live, notified, exp, wts, disc, lk, nww, sem, 
                                 cval, cwaited, cq, clk, nwc, cmu, badmu, cz, 
                                 now, ip, ret, dres, called, dl0, lpar, freeing, 
-                                badret, vcount, taint4, taint5, tn, p, dn, nt, 
-                                xn, xcl, wn, wp, wdl, fail, fn, fp, fi, fk, 
-                                cdl, cv, cwk, objs, adl, single, wm, k, rt, 
+                                badret, vcount, taint4, taint5, taint6, tn, p, 
+                                dn, nt, xn, xcl, wn, wp, wdl, fail, fn, fp, fi, 
+                                fk, cdl, cv, cwk, objs, adl, single, wm, k, rt, 
                                 cnt, rdy, enq, wq, unl, sdl, scn, sct, sldl, 
                                 snear, sso, st, pn >>
 
@@ -698,11 +704,11 @@ nt_1_lk(self) == /\ pc[self] = "nt_1_lk"
                                  nww, sem, cval, cwaited, cq, clk, nwc, cmu, 
                                  badmu, cz, now, ip, ret, dres, called, dl0, 
                                  lpar, wfor, freeing, badret, vcount, taint4, 
-                                 taint5, stack, cn, cp, i, klist, w, tn, p, dn, 
-                                 nt, xn, xcl, wn, wp, wdl, fail, fn, fp, fi, 
-                                 fk, cdl, cv, cwk, objs, adl, single, wm, k, 
-                                 rt, cnt, rdy, enq, wq, unl, sdl, scn, sct, 
-                                 sldl, snear, sso, st, pn >>
+                                 taint5, taint6, stack, cn, cp, i, klist, w, 
+                                 tn, p, dn, nt, xn, xcl, wn, wp, wdl, fail, fn, 
+                                 fp, fi, fk, cdl, cv, cwk, objs, adl, single, 
+                                 wm, k, rt, cnt, rdy, enq, wq, unl, sdl, scn, 
+                                 sct, sldl, snear, sso, st, pn >>
 
 nt_2_ld(self) == /\ pc[self] = "nt_2_ld"
                  /\ IF NTime(tn[self]) = ZERO
@@ -715,11 +721,11 @@ nt_2_ld(self) == /\ pc[self] = "nt_2_ld"
                                  sem, cval, cwaited, cq, clk, nwc, cmu, badmu, 
                                  cz, now, ip, ret, dres, called, dl0, lpar, 
                                  wfor, freeing, badret, vcount, uaf, taint4, 
-                                 taint5, stack, cn, cp, i, klist, w, tn, dn, 
-                                 nt, xn, xcl, wn, wp, wdl, fail, fn, fp, fi, 
-                                 fk, cdl, cv, cwk, objs, adl, single, wm, k, 
-                                 rt, cnt, rdy, enq, wq, unl, sdl, scn, sct, 
-                                 sldl, snear, sso, st, pn >>
+                                 taint5, taint6, stack, cn, cp, i, klist, w, 
+                                 tn, dn, nt, xn, xcl, wn, wp, wdl, fail, fn, 
+                                 fp, fi, fk, cdl, cv, cwk, objs, adl, single, 
+                                 wm, k, rt, cnt, rdy, enq, wq, unl, sdl, scn, 
+                                 sct, sldl, snear, sso, st, pn >>
 
 nt_2_l(self) == /\ pc[self] = "nt_2_l"
                 /\ IF p[self] = 0
@@ -729,11 +735,11 @@ nt_2_l(self) == /\ pc[self] = "nt_2_l"
                                 nww, sem, cval, cwaited, cq, clk, nwc, cmu, 
                                 badmu, cz, now, ip, ret, dres, called, dl0, 
                                 lpar, wfor, freeing, badret, vcount, uaf, 
-                                taint4, taint5, stack, cn, cp, i, klist, w, tn, 
-                                p, dn, nt, xn, xcl, wn, wp, wdl, fail, fn, fp, 
-                                fi, fk, cdl, cv, cwk, objs, adl, single, wm, k, 
-                                rt, cnt, rdy, enq, wq, unl, sdl, scn, sct, 
-                                sldl, snear, sso, st, pn >>
+                                taint4, taint5, taint6, stack, cn, cp, i, 
+                                klist, w, tn, p, dn, nt, xn, xcl, wn, wp, wdl, 
+                                fail, fn, fp, fi, fk, cdl, cv, cwk, objs, adl, 
+                                single, wm, k, rt, cnt, rdy, enq, wq, unl, sdl, 
+                                scn, sct, sldl, snear, sso, st, pn >>
 
 nt_3_r(self) == /\ pc[self] = "nt_3_r"
                 /\ uaf' = (uaf \/ Touch(p[self]))
@@ -746,11 +752,11 @@ nt_3_r(self) == /\ pc[self] = "nt_3_r"
                                 sem, cval, cwaited, cq, clk, nwc, cmu, badmu, 
                                 cz, now, ip, ret, dres, called, dl0, lpar, 
                                 wfor, freeing, badret, vcount, taint4, taint5, 
-                                stack, cn, cp, i, klist, w, tn, p, dn, nt, xn, 
-                                xcl, wn, wp, wdl, fail, fn, fp, fi, fk, cdl, 
-                                cv, cwk, objs, adl, single, wm, k, rt, cnt, 
-                                rdy, enq, wq, unl, sdl, scn, sct, sldl, snear, 
-                                sso, st, pn >>
+                                taint6, stack, cn, cp, i, klist, w, tn, p, dn, 
+                                nt, xn, xcl, wn, wp, wdl, fail, fn, fp, fi, fk, 
+                                cdl, cv, cwk, objs, adl, single, wm, k, rt, 
+                                cnt, rdy, enq, wq, unl, sdl, scn, sct, sldl, 
+                                snear, sso, st, pn >>
 
 nt_4_ul(self) == /\ pc[self] = "nt_4_ul"
                  /\ lk' = [lk EXCEPT ![tn[self]] = 0]
@@ -759,11 +765,11 @@ nt_4_ul(self) == /\ pc[self] = "nt_4_ul"
                                  nww, sem, cval, cwaited, cq, clk, nwc, cmu, 
                                  badmu, cz, now, ip, ret, dres, called, dl0, 
                                  lpar, wfor, freeing, badret, vcount, uaf, 
-                                 taint4, taint5, stack, cn, cp, i, klist, w, 
-                                 tn, p, dn, nt, xn, xcl, wn, wp, wdl, fail, fn, 
-                                 fp, fi, fk, cdl, cv, cwk, objs, adl, single, 
-                                 wm, k, rt, cnt, rdy, enq, wq, unl, sdl, scn, 
-                                 sct, sldl, snear, sso, st, pn >>
+                                 taint4, taint5, taint6, stack, cn, cp, i, 
+                                 klist, w, tn, p, dn, nt, xn, xcl, wn, wp, wdl, 
+                                 fail, fn, fp, fi, fk, cdl, cv, cwk, objs, adl, 
+                                 single, wm, k, rt, cnt, rdy, enq, wq, unl, 
+                                 sdl, scn, sct, sldl, snear, sso, st, pn >>
 
 nt_5_lk(self) == /\ pc[self] = "nt_5_lk"
                  /\ lk[p[self]] = 0
@@ -775,11 +781,11 @@ nt_5_lk(self) == /\ pc[self] = "nt_5_lk"
                                  nww, sem, cval, cwaited, cq, clk, nwc, cmu, 
                                  badmu, cz, now, ip, ret, dres, called, dl0, 
                                  lpar, wfor, freeing, badret, vcount, taint4, 
-                                 stack, cn, cp, i, klist, w, tn, p, dn, nt, xn, 
-                                 xcl, wn, wp, wdl, fail, fn, fp, fi, fk, cdl, 
-                                 cv, cwk, objs, adl, single, wm, k, rt, cnt, 
-                                 rdy, enq, wq, unl, sdl, scn, sct, sldl, snear, 
-                                 sso, st, pn >>
+                                 taint6, stack, cn, cp, i, klist, w, tn, p, dn, 
+                                 nt, xn, xcl, wn, wp, wdl, fail, fn, fp, fi, 
+                                 fk, cdl, cv, cwk, objs, adl, single, wm, k, 
+                                 rt, cnt, rdy, enq, wq, unl, sdl, scn, sct, 
+                                 sldl, snear, sso, st, pn >>
 
 nt_6_lk(self) == /\ pc[self] = "nt_6_lk"
                  /\ lk[tn[self]] = 0
@@ -789,11 +795,11 @@ nt_6_lk(self) == /\ pc[self] = "nt_6_lk"
                                  nww, sem, cval, cwaited, cq, clk, nwc, cmu, 
                                  badmu, cz, now, ip, ret, dres, called, dl0, 
                                  lpar, wfor, freeing, badret, vcount, uaf, 
-                                 taint4, taint5, stack, cn, cp, i, klist, w, 
-                                 tn, p, dn, nt, xn, xcl, wn, wp, wdl, fail, fn, 
-                                 fp, fi, fk, cdl, cv, cwk, objs, adl, single, 
-                                 wm, k, rt, cnt, rdy, enq, wq, unl, sdl, scn, 
-                                 sct, sldl, snear, sso, st, pn >>
+                                 taint4, taint5, taint6, stack, cn, cp, i, 
+                                 klist, w, tn, p, dn, nt, xn, xcl, wn, wp, wdl, 
+                                 fail, fn, fp, fi, fk, cdl, cv, cwk, objs, adl, 
+                                 single, wm, k, rt, cnt, rdy, enq, wq, unl, 
+                                 sdl, scn, sct, sldl, snear, sso, st, pn >>
 
 nt_7_l(self) == /\ pc[self] = "nt_7_l"
                 /\ /\ cn' = [cn EXCEPT ![self] = tn[self]]
@@ -814,10 +820,11 @@ nt_7_l(self) == /\ pc[self] = "nt_7_l"
                                 nww, sem, cval, cwaited, cq, clk, nwc, cmu, 
                                 badmu, cz, now, ip, ret, dres, called, dl0, 
                                 lpar, wfor, freeing, badret, vcount, uaf, 
-                                taint4, taint5, tn, p, dn, nt, xn, xcl, wn, wp, 
-                                wdl, fail, fn, fp, fi, fk, cdl, cv, cwk, objs, 
-                                adl, single, wm, k, rt, cnt, rdy, enq, wq, unl, 
-                                sdl, scn, sct, sldl, snear, sso, st, pn >>
+                                taint4, taint5, taint6, tn, p, dn, nt, xn, xcl, 
+                                wn, wp, wdl, fail, fn, fp, fi, fk, cdl, cv, 
+                                cwk, objs, adl, single, wm, k, rt, cnt, rdy, 
+                                enq, wq, unl, sdl, scn, sct, sldl, snear, sso, 
+                                st, pn >>
 
 nt_7b_l(self) == /\ pc[self] = "nt_7b_l"
                  /\ IF p[self] = 0
@@ -827,11 +834,11 @@ nt_7b_l(self) == /\ pc[self] = "nt_7b_l"
                                  nww, sem, cval, cwaited, cq, clk, nwc, cmu, 
                                  badmu, cz, now, ip, ret, dres, called, dl0, 
                                  lpar, wfor, freeing, badret, vcount, uaf, 
-                                 taint4, taint5, stack, cn, cp, i, klist, w, 
-                                 tn, p, dn, nt, xn, xcl, wn, wp, wdl, fail, fn, 
-                                 fp, fi, fk, cdl, cv, cwk, objs, adl, single, 
-                                 wm, k, rt, cnt, rdy, enq, wq, unl, sdl, scn, 
-                                 sct, sldl, snear, sso, st, pn >>
+                                 taint4, taint5, taint6, stack, cn, cp, i, 
+                                 klist, w, tn, p, dn, nt, xn, xcl, wn, wp, wdl, 
+                                 fail, fn, fp, fi, fk, cdl, cv, cwk, objs, adl, 
+                                 single, wm, k, rt, cnt, rdy, enq, wq, unl, 
+                                 sdl, scn, sct, sldl, snear, sso, st, pn >>
 
 nt_7_ul(self) == /\ pc[self] = "nt_7_ul"
                  /\ lk' = [lk EXCEPT ![p[self]] = 0]
@@ -841,11 +848,11 @@ nt_7_ul(self) == /\ pc[self] = "nt_7_ul"
                                  nww, sem, cval, cwaited, cq, clk, nwc, cmu, 
                                  badmu, cz, now, ip, ret, dres, called, dl0, 
                                  lpar, wfor, freeing, badret, vcount, taint4, 
-                                 taint5, stack, cn, cp, i, klist, w, tn, p, dn, 
-                                 nt, xn, xcl, wn, wp, wdl, fail, fn, fp, fi, 
-                                 fk, cdl, cv, cwk, objs, adl, single, wm, k, 
-                                 rt, cnt, rdy, enq, wq, unl, sdl, scn, sct, 
-                                 sldl, snear, sso, st, pn >>
+                                 taint5, taint6, stack, cn, cp, i, klist, w, 
+                                 tn, p, dn, nt, xn, xcl, wn, wp, wdl, fail, fn, 
+                                 fp, fi, fk, cdl, cv, cwk, objs, adl, single, 
+                                 wm, k, rt, cnt, rdy, enq, wq, unl, sdl, scn, 
+                                 sct, sldl, snear, sso, st, pn >>
 
 nt_7c_l(self) == /\ pc[self] = "nt_7c_l"
                  /\ disc' = [disc EXCEPT ![tn[self]] = disc[tn[self]] - 1]
@@ -854,11 +861,11 @@ nt_7c_l(self) == /\ pc[self] = "nt_7c_l"
                                  sem, cval, cwaited, cq, clk, nwc, cmu, badmu, 
                                  cz, now, ip, ret, dres, called, dl0, lpar, 
                                  wfor, freeing, badret, vcount, uaf, taint4, 
-                                 taint5, stack, cn, cp, i, klist, w, tn, p, dn, 
-                                 nt, xn, xcl, wn, wp, wdl, fail, fn, fp, fi, 
-                                 fk, cdl, cv, cwk, objs, adl, single, wm, k, 
-                                 rt, cnt, rdy, enq, wq, unl, sdl, scn, sct, 
-                                 sldl, snear, sso, st, pn >>
+                                 taint5, taint6, stack, cn, cp, i, klist, w, 
+                                 tn, p, dn, nt, xn, xcl, wn, wp, wdl, fail, fn, 
+                                 fp, fi, fk, cdl, cv, cwk, objs, adl, single, 
+                                 wm, k, rt, cnt, rdy, enq, wq, unl, sdl, scn, 
+                                 sct, sldl, snear, sso, st, pn >>
 
 nt_8_ul(self) == /\ pc[self] = "nt_8_ul"
                  /\ lk' = [lk EXCEPT ![tn[self]] = 0]
@@ -870,11 +877,11 @@ nt_8_ul(self) == /\ pc[self] = "nt_8_ul"
                                  nww, sem, cval, cwaited, cq, clk, nwc, cmu, 
                                  badmu, cz, now, ip, ret, dres, called, dl0, 
                                  lpar, wfor, freeing, badret, vcount, uaf, 
-                                 taint4, taint5, cn, cp, i, klist, w, dn, nt, 
-                                 xn, xcl, wn, wp, wdl, fail, fn, fp, fi, fk, 
-                                 cdl, cv, cwk, objs, adl, single, wm, k, rt, 
-                                 cnt, rdy, enq, wq, unl, sdl, scn, sct, sldl, 
-                                 snear, sso, st, pn >>
+                                 taint4, taint5, taint6, cn, cp, i, klist, w, 
+                                 dn, nt, xn, xcl, wn, wp, wdl, fail, fn, fp, 
+                                 fi, fk, cdl, cv, cwk, objs, adl, single, wm, 
+                                 k, rt, cnt, rdy, enq, wq, unl, sdl, scn, sct, 
+                                 sldl, snear, sso, st, pn >>
 
 notify(self) == nt_1_lk(self) \/ nt_2_ld(self) \/ nt_2_l(self)
                    \/ nt_3_r(self) \/ nt_4_ul(self) \/ nt_5_lk(self)
@@ -895,10 +902,11 @@ nd_1_ld(self) == /\ pc[self] = "nd_1_ld"
                                  nww, sem, cval, cwaited, cq, clk, nwc, cmu, 
                                  badmu, cz, now, ip, ret, called, dl0, lpar, 
                                  wfor, freeing, badret, vcount, taint4, taint5, 
-                                 cn, cp, i, klist, w, tn, p, xn, xcl, wn, wp, 
-                                 wdl, fail, fn, fp, fi, fk, cdl, cv, cwk, objs, 
-                                 adl, single, wm, k, rt, cnt, rdy, enq, wq, 
-                                 unl, sdl, scn, sct, sldl, snear, sso, st, pn >>
+                                 taint6, cn, cp, i, klist, w, tn, p, xn, xcl, 
+                                 wn, wp, wdl, fail, fn, fp, fi, fk, cdl, cv, 
+                                 cwk, objs, adl, single, wm, k, rt, cnt, rdy, 
+                                 enq, wq, unl, sdl, scn, sct, sldl, snear, sso, 
+                                 st, pn >>
 
 nd_2_lk(self) == /\ pc[self] = "nd_2_lk"
                  /\ lk[dn[self]] = 0
@@ -908,11 +916,11 @@ nd_2_lk(self) == /\ pc[self] = "nd_2_lk"
                                  nww, sem, cval, cwaited, cq, clk, nwc, cmu, 
                                  badmu, cz, now, ip, ret, dres, called, dl0, 
                                  lpar, wfor, freeing, badret, vcount, uaf, 
-                                 taint4, taint5, stack, cn, cp, i, klist, w, 
-                                 tn, p, dn, nt, xn, xcl, wn, wp, wdl, fail, fn, 
-                                 fp, fi, fk, cdl, cv, cwk, objs, adl, single, 
-                                 wm, k, rt, cnt, rdy, enq, wq, unl, sdl, scn, 
-                                 sct, sldl, snear, sso, st, pn >>
+                                 taint4, taint5, taint6, stack, cn, cp, i, 
+                                 klist, w, tn, p, dn, nt, xn, xcl, wn, wp, wdl, 
+                                 fail, fn, fp, fi, fk, cdl, cv, cwk, objs, adl, 
+                                 single, wm, k, rt, cnt, rdy, enq, wq, unl, 
+                                 sdl, scn, sct, sldl, snear, sso, st, pn >>
 
 nd_3_ld(self) == /\ pc[self] = "nd_3_ld"
                  /\ nt' = [nt EXCEPT ![self] = NTime(dn[self])]
@@ -921,11 +929,11 @@ nd_3_ld(self) == /\ pc[self] = "nd_3_ld"
                                  nww, sem, cval, cwaited, cq, clk, nwc, cmu, 
                                  badmu, cz, now, ip, ret, dres, called, dl0, 
                                  lpar, wfor, freeing, badret, vcount, uaf, 
-                                 taint4, taint5, stack, cn, cp, i, klist, w, 
-                                 tn, p, dn, xn, xcl, wn, wp, wdl, fail, fn, fp, 
-                                 fi, fk, cdl, cv, cwk, objs, adl, single, wm, 
-                                 k, rt, cnt, rdy, enq, wq, unl, sdl, scn, sct, 
-                                 sldl, snear, sso, st, pn >>
+                                 taint4, taint5, taint6, stack, cn, cp, i, 
+                                 klist, w, tn, p, dn, xn, xcl, wn, wp, wdl, 
+                                 fail, fn, fp, fi, fk, cdl, cv, cwk, objs, adl, 
+                                 single, wm, k, rt, cnt, rdy, enq, wq, unl, 
+                                 sdl, scn, sct, sldl, snear, sso, st, pn >>
 
 nd_4_ul(self) == /\ pc[self] = "nd_4_ul"
                  /\ lk' = [lk EXCEPT ![dn[self]] = 0]
@@ -949,10 +957,11 @@ nd_4_ul(self) == /\ pc[self] = "nd_4_ul"
                                  nww, sem, cval, cwaited, cq, clk, nwc, cmu, 
                                  badmu, cz, now, ip, ret, called, dl0, lpar, 
                                  wfor, freeing, badret, vcount, uaf, taint4, 
-                                 taint5, cn, cp, i, klist, w, xn, xcl, wn, wp, 
-                                 wdl, fail, fn, fp, fi, fk, cdl, cv, cwk, objs, 
-                                 adl, single, wm, k, rt, cnt, rdy, enq, wq, 
-                                 unl, sdl, scn, sct, sldl, snear, sso, st, pn >>
+                                 taint5, taint6, cn, cp, i, klist, w, xn, xcl, 
+                                 wn, wp, wdl, fail, fn, fp, fi, fk, cdl, cv, 
+                                 cwk, objs, adl, single, wm, k, rt, cnt, rdy, 
+                                 enq, wq, unl, sdl, scn, sct, sldl, snear, sso, 
+                                 st, pn >>
 
 nd_5_l(self) == /\ pc[self] = "nd_5_l"
                 /\ dres' = [dres EXCEPT ![self] = ZERO]
@@ -964,11 +973,11 @@ nd_5_l(self) == /\ pc[self] = "nd_5_l"
                                 nww, sem, cval, cwaited, cq, clk, nwc, cmu, 
                                 badmu, cz, now, ip, ret, called, dl0, lpar, 
                                 wfor, freeing, badret, vcount, uaf, taint4, 
-                                taint5, cn, cp, i, klist, w, tn, p, xn, xcl, 
-                                wn, wp, wdl, fail, fn, fp, fi, fk, cdl, cv, 
-                                cwk, objs, adl, single, wm, k, rt, cnt, rdy, 
-                                enq, wq, unl, sdl, scn, sct, sldl, snear, sso, 
-                                st, pn >>
+                                taint5, taint6, cn, cp, i, klist, w, tn, p, xn, 
+                                xcl, wn, wp, wdl, fail, fn, fp, fi, fk, cdl, 
+                                cv, cwk, objs, adl, single, wm, k, rt, cnt, 
+                                rdy, enq, wq, unl, sdl, scn, sct, sldl, snear, 
+                                sso, st, pn >>
 
 ndeadline(self) == nd_1_ld(self) \/ nd_2_lk(self) \/ nd_3_ld(self)
                       \/ nd_4_ul(self) \/ nd_5_l(self)
@@ -987,10 +996,11 @@ nx_0_l(self) == /\ pc[self] = "nx_0_l"
                                 nww, sem, cval, cwaited, cq, clk, nwc, cmu, 
                                 badmu, cz, now, ip, ret, dres, dl0, lpar, wfor, 
                                 freeing, badret, vcount, uaf, taint4, taint5, 
-                                cn, cp, i, klist, w, tn, p, xn, xcl, wn, wp, 
-                                wdl, fail, fn, fp, fi, fk, cdl, cv, cwk, objs, 
-                                adl, single, wm, k, rt, cnt, rdy, enq, wq, unl, 
-                                sdl, scn, sct, sldl, snear, sso, st, pn >>
+                                taint6, cn, cp, i, klist, w, tn, p, xn, xcl, 
+                                wn, wp, wdl, fail, fn, fp, fi, fk, cdl, cv, 
+                                cwk, objs, adl, single, wm, k, rt, cnt, rdy, 
+                                enq, wq, unl, sdl, scn, sct, sldl, snear, sso, 
+                                st, pn >>
 
 nx_1_l(self) == /\ pc[self] = "nx_1_l"
                 /\ IF dres[self] > ZERO
@@ -1008,9 +1018,9 @@ nx_1_l(self) == /\ pc[self] = "nx_1_l"
                                 nww, sem, cval, cwaited, cq, clk, nwc, cmu, 
                                 badmu, cz, now, ip, ret, dres, called, dl0, 
                                 lpar, wfor, freeing, badret, vcount, uaf, 
-                                taint4, taint5, cn, cp, i, klist, w, dn, nt, 
-                                xn, xcl, wn, wp, wdl, fail, fn, fp, fi, fk, 
-                                cdl, cv, cwk, objs, adl, single, wm, k, rt, 
+                                taint4, taint5, taint6, cn, cp, i, klist, w, 
+                                dn, nt, xn, xcl, wn, wp, wdl, fail, fn, fp, fi, 
+                                fk, cdl, cv, cwk, objs, adl, single, wm, k, rt, 
                                 cnt, rdy, enq, wq, unl, sdl, scn, sct, sldl, 
                                 snear, sso, st, pn >>
 
@@ -1027,11 +1037,11 @@ nx_2_l(self) == /\ pc[self] = "nx_2_l"
                                 nww, sem, cval, cwaited, cq, clk, nwc, cmu, 
                                 badmu, cz, now, ip, dres, called, dl0, lpar, 
                                 wfor, freeing, badret, vcount, uaf, taint4, 
-                                taint5, cn, cp, i, klist, w, tn, p, dn, nt, wn, 
-                                wp, wdl, fail, fn, fp, fi, fk, cdl, cv, cwk, 
-                                objs, adl, single, wm, k, rt, cnt, rdy, enq, 
-                                wq, unl, sdl, scn, sct, sldl, snear, sso, st, 
-                                pn >>
+                                taint5, taint6, cn, cp, i, klist, w, tn, p, dn, 
+                                nt, wn, wp, wdl, fail, fn, fp, fi, fk, cdl, cv, 
+                                cwk, objs, adl, single, wm, k, rt, cnt, rdy, 
+                                enq, wq, unl, sdl, scn, sct, sldl, snear, sso, 
+                                st, pn >>
 
 nnotify(self) == nx_0_l(self) \/ nx_1_l(self) \/ nx_2_l(self)
 
@@ -1054,11 +1064,11 @@ nn_0_l(self) == /\ pc[self] = "nn_0_l"
                 /\ UNCHANGED << notified, par, kids, wts, disc, lk, nww, sem, 
                                 cval, cwaited, cq, clk, nwc, cmu, badmu, cz, 
                                 now, ip, dres, called, wfor, freeing, badret, 
-                                vcount, uaf, taint4, taint5, cn, cp, i, klist, 
-                                w, tn, p, dn, nt, xn, xcl, fn, fp, fi, fk, cdl, 
-                                cv, cwk, objs, adl, single, wm, k, rt, cnt, 
-                                rdy, enq, wq, unl, sdl, scn, sct, sldl, snear, 
-                                sso, st, pn >>
+                                vcount, uaf, taint4, taint5, taint6, cn, cp, i, 
+                                klist, w, tn, p, dn, nt, xn, xcl, fn, fp, fi, 
+                                fk, cdl, cv, cwk, objs, adl, single, wm, k, rt, 
+                                cnt, rdy, enq, wq, unl, sdl, scn, sct, sldl, 
+                                snear, sso, st, pn >>
 
 nn_1_l(self) == /\ pc[self] = "nn_1_l"
                 /\ /\ dn' = [dn EXCEPT ![self] = wn[self]]
@@ -1073,11 +1083,11 @@ nn_1_l(self) == /\ pc[self] = "nn_1_l"
                                 nww, sem, cval, cwaited, cq, clk, nwc, cmu, 
                                 badmu, cz, now, ip, ret, dres, called, dl0, 
                                 lpar, wfor, freeing, badret, vcount, uaf, 
-                                taint4, taint5, cn, cp, i, klist, w, tn, p, xn, 
-                                xcl, wn, wp, wdl, fail, fn, fp, fi, fk, cdl, 
-                                cv, cwk, objs, adl, single, wm, k, rt, cnt, 
-                                rdy, enq, wq, unl, sdl, scn, sct, sldl, snear, 
-                                sso, st, pn >>
+                                taint4, taint5, taint6, cn, cp, i, klist, w, 
+                                tn, p, xn, xcl, wn, wp, wdl, fail, fn, fp, fi, 
+                                fk, cdl, cv, cwk, objs, adl, single, wm, k, rt, 
+                                cnt, rdy, enq, wq, unl, sdl, scn, sct, sldl, 
+                                snear, sso, st, pn >>
 
 nn_2_l(self) == /\ pc[self] = "nn_2_l"
                 /\ IF dres[self] = ZERO \/ wp[self] = 0
@@ -1095,8 +1105,8 @@ nn_2_l(self) == /\ pc[self] = "nn_2_l"
                                 sem, cval, cwaited, cq, clk, nwc, cmu, badmu, 
                                 cz, now, ip, dres, called, dl0, lpar, wfor, 
                                 freeing, badret, vcount, uaf, taint4, taint5, 
-                                cn, cp, i, klist, w, tn, p, dn, nt, xn, xcl, 
-                                fn, fp, fi, fk, cdl, cv, cwk, objs, adl, 
+                                taint6, cn, cp, i, klist, w, tn, p, dn, nt, xn, 
+                                xcl, fn, fp, fi, fk, cdl, cv, cwk, objs, adl, 
                                 single, wm, k, rt, cnt, rdy, enq, wq, unl, sdl, 
                                 scn, sct, sldl, snear, sso, st, pn >>
 
@@ -1109,11 +1119,11 @@ nn_3_lk(self) == /\ pc[self] = "nn_3_lk"
                                  nww, sem, cval, cwaited, cq, clk, nwc, cmu, 
                                  badmu, cz, now, ip, ret, dres, called, dl0, 
                                  lpar, wfor, freeing, badret, vcount, taint4, 
-                                 taint5, stack, cn, cp, i, klist, w, tn, p, dn, 
-                                 nt, xn, xcl, wn, wp, wdl, fail, fn, fp, fi, 
-                                 fk, cdl, cv, cwk, objs, adl, single, wm, k, 
-                                 rt, cnt, rdy, enq, wq, unl, sdl, scn, sct, 
-                                 sldl, snear, sso, st, pn >>
+                                 taint5, taint6, stack, cn, cp, i, klist, w, 
+                                 tn, p, dn, nt, xn, xcl, wn, wp, wdl, fail, fn, 
+                                 fp, fi, fk, cdl, cv, cwk, objs, adl, single, 
+                                 wm, k, rt, cnt, rdy, enq, wq, unl, sdl, scn, 
+                                 sct, sldl, snear, sso, st, pn >>
 
 nn_4_ld(self) == /\ pc[self] = "nn_4_ld"
                  /\ IF NTime(wp[self]) < wdl[self]
@@ -1130,11 +1140,11 @@ nn_4_ld(self) == /\ pc[self] = "nn_4_ld"
                                  cwaited, cq, clk, nwc, cmu, badmu, cz, now, 
                                  ip, ret, dres, called, dl0, lpar, wfor, 
                                  freeing, badret, vcount, uaf, taint4, taint5, 
-                                 stack, cn, cp, i, klist, w, tn, p, dn, nt, xn, 
-                                 xcl, wn, wp, wdl, fail, fn, fp, fi, fk, cdl, 
-                                 cv, cwk, objs, adl, single, wm, k, rt, cnt, 
-                                 rdy, enq, wq, unl, sdl, scn, sct, sldl, snear, 
-                                 sso, st, pn >>
+                                 taint6, stack, cn, cp, i, klist, w, tn, p, dn, 
+                                 nt, xn, xcl, wn, wp, wdl, fail, fn, fp, fi, 
+                                 fk, cdl, cv, cwk, objs, adl, single, wm, k, 
+                                 rt, cnt, rdy, enq, wq, unl, sdl, scn, sct, 
+                                 sldl, snear, sso, st, pn >>
 
 nn_5_ul(self) == /\ pc[self] = "nn_5_ul"
                  /\ lk' = [lk EXCEPT ![wp[self]] = 0]
@@ -1150,10 +1160,10 @@ nn_5_ul(self) == /\ pc[self] = "nn_5_ul"
                                  cval, cwaited, cq, clk, nwc, cmu, badmu, cz, 
                                  now, ip, dres, called, dl0, lpar, wfor, 
                                  freeing, badret, vcount, uaf, taint4, taint5, 
-                                 cn, cp, i, klist, w, tn, p, dn, nt, xn, xcl, 
-                                 fn, fp, fi, fk, cdl, cv, cwk, objs, adl, 
-                                 single, wm, k, rt, cnt, rdy, enq, wq, unl, 
-                                 sdl, scn, sct, sldl, snear, sso, st, pn >>
+                                 taint6, cn, cp, i, klist, w, tn, p, dn, nt, 
+                                 xn, xcl, fn, fp, fi, fk, cdl, cv, cwk, objs, 
+                                 adl, single, wm, k, rt, cnt, rdy, enq, wq, 
+                                 unl, sdl, scn, sct, sldl, snear, sso, st, pn >>
 
 nnew(self) == nn_0_l(self) \/ nn_1_l(self) \/ nn_2_l(self) \/ nn_3_lk(self)
                  \/ nn_4_ld(self) \/ nn_5_ul(self)
@@ -1168,12 +1178,12 @@ nf_1_lk(self) == /\ pc[self] = "nf_1_lk"
                  /\ UNCHANGED << live, notified, exp, par, kids, wts, nww, sem, 
                                  cval, cwaited, cq, clk, nwc, cmu, badmu, cz, 
                                  now, ip, ret, dres, called, dl0, lpar, wfor, 
-                                 badret, vcount, uaf, taint4, taint5, stack, 
-                                 cn, cp, i, klist, w, tn, p, dn, nt, xn, xcl, 
-                                 wn, wp, wdl, fail, fn, fi, fk, cdl, cv, cwk, 
-                                 objs, adl, single, wm, k, rt, cnt, rdy, enq, 
-                                 wq, unl, sdl, scn, sct, sldl, snear, sso, st, 
-                                 pn >>
+                                 badret, vcount, uaf, taint4, taint5, taint6, 
+                                 stack, cn, cp, i, klist, w, tn, p, dn, nt, xn, 
+                                 xcl, wn, wp, wdl, fail, fn, fi, fk, cdl, cv, 
+                                 cwk, objs, adl, single, wm, k, rt, cnt, rdy, 
+                                 enq, wq, unl, sdl, scn, sct, sldl, snear, sso, 
+                                 st, pn >>
 
 nf_1_l(self) == /\ pc[self] = "nf_1_l"
                 /\ IF fp[self] = 0
@@ -1183,11 +1193,11 @@ nf_1_l(self) == /\ pc[self] = "nf_1_l"
                                 nww, sem, cval, cwaited, cq, clk, nwc, cmu, 
                                 badmu, cz, now, ip, ret, dres, called, dl0, 
                                 lpar, wfor, freeing, badret, vcount, uaf, 
-                                taint4, taint5, stack, cn, cp, i, klist, w, tn, 
-                                p, dn, nt, xn, xcl, wn, wp, wdl, fail, fn, fp, 
-                                fi, fk, cdl, cv, cwk, objs, adl, single, wm, k, 
-                                rt, cnt, rdy, enq, wq, unl, sdl, scn, sct, 
-                                sldl, snear, sso, st, pn >>
+                                taint4, taint5, taint6, stack, cn, cp, i, 
+                                klist, w, tn, p, dn, nt, xn, xcl, wn, wp, wdl, 
+                                fail, fn, fp, fi, fk, cdl, cv, cwk, objs, adl, 
+                                single, wm, k, rt, cnt, rdy, enq, wq, unl, sdl, 
+                                scn, sct, sldl, snear, sso, st, pn >>
 
 nf_2_r(self) == /\ pc[self] = "nf_2_r"
                 /\ IF lk[fp[self]] = 0
@@ -1199,11 +1209,11 @@ nf_2_r(self) == /\ pc[self] = "nf_2_r"
                                 sem, cval, cwaited, cq, clk, nwc, cmu, badmu, 
                                 cz, now, ip, ret, dres, called, dl0, lpar, 
                                 wfor, freeing, badret, vcount, uaf, taint4, 
-                                taint5, stack, cn, cp, i, klist, w, tn, p, dn, 
-                                nt, xn, xcl, wn, wp, wdl, fail, fn, fp, fi, fk, 
-                                cdl, cv, cwk, objs, adl, single, wm, k, rt, 
-                                cnt, rdy, enq, wq, unl, sdl, scn, sct, sldl, 
-                                snear, sso, st, pn >>
+                                taint5, taint6, stack, cn, cp, i, klist, w, tn, 
+                                p, dn, nt, xn, xcl, wn, wp, wdl, fail, fn, fp, 
+                                fi, fk, cdl, cv, cwk, objs, adl, single, wm, k, 
+                                rt, cnt, rdy, enq, wq, unl, sdl, scn, sct, 
+                                sldl, snear, sso, st, pn >>
 
 nf_3_ul(self) == /\ pc[self] = "nf_3_ul"
                  /\ lk' = [lk EXCEPT ![fn[self]] = 0]
@@ -1212,16 +1222,17 @@ nf_3_ul(self) == /\ pc[self] = "nf_3_ul"
                                  nww, sem, cval, cwaited, cq, clk, nwc, cmu, 
                                  badmu, cz, now, ip, ret, dres, called, dl0, 
                                  lpar, wfor, freeing, badret, vcount, uaf, 
-                                 taint4, taint5, stack, cn, cp, i, klist, w, 
-                                 tn, p, dn, nt, xn, xcl, wn, wp, wdl, fail, fn, 
-                                 fp, fi, fk, cdl, cv, cwk, objs, adl, single, 
-                                 wm, k, rt, cnt, rdy, enq, wq, unl, sdl, scn, 
-                                 sct, sldl, snear, sso, st, pn >>
+                                 taint4, taint5, taint6, stack, cn, cp, i, 
+                                 klist, w, tn, p, dn, nt, xn, xcl, wn, wp, wdl, 
+                                 fail, fn, fp, fi, fk, cdl, cv, cwk, objs, adl, 
+                                 single, wm, k, rt, cnt, rdy, enq, wq, unl, 
+                                 sdl, scn, sct, sldl, snear, sso, st, pn >>
 
 nf_4_lk(self) == /\ pc[self] = "nf_4_lk"
                  /\ lk[fp[self]] = 0
                  /\ lk' = [lk EXCEPT ![fp[self]] = self]
                  /\ uaf' = (uaf \/ Touch(fp[self]))
+                 /\ taint6' = (taint6 \/ (par[fn[self]] # fp[self]))
                  /\ pc' = [pc EXCEPT ![self] = "nf_4b_lk"]
                  /\ UNCHANGED << live, notified, exp, par, kids, wts, disc, 
                                  nww, sem, cval, cwaited, cq, clk, nwc, cmu, 
@@ -1241,11 +1252,12 @@ nf_4b_lk(self) == /\ pc[self] = "nf_4b_lk"
                                   nww, sem, cval, cwaited, cq, clk, nwc, cmu, 
                                   badmu, cz, now, ip, ret, dres, called, dl0, 
                                   lpar, wfor, freeing, badret, vcount, uaf, 
-                                  taint4, taint5, stack, cn, cp, i, klist, w, 
-                                  tn, p, dn, nt, xn, xcl, wn, wp, wdl, fail, 
-                                  fn, fp, fi, fk, cdl, cv, cwk, objs, adl, 
-                                  single, wm, k, rt, cnt, rdy, enq, wq, unl, 
-                                  sdl, scn, sct, sldl, snear, sso, st, pn >>
+                                  taint4, taint5, taint6, stack, cn, cp, i, 
+                                  klist, w, tn, p, dn, nt, xn, xcl, wn, wp, 
+                                  wdl, fail, fn, fp, fi, fk, cdl, cv, cwk, 
+                                  objs, adl, single, wm, k, rt, cnt, rdy, enq, 
+                                  wq, unl, sdl, scn, sct, sldl, snear, sso, st, 
+                                  pn >>
 
 nf_5_l(self) == /\ pc[self] = "nf_5_l"
                 /\ fk' = [fk EXCEPT ![self] = kids[fn[self]]]
@@ -1255,11 +1267,11 @@ nf_5_l(self) == /\ pc[self] = "nf_5_l"
                                 nww, sem, cval, cwaited, cq, clk, nwc, cmu, 
                                 badmu, cz, now, ip, ret, dres, called, dl0, 
                                 lpar, wfor, freeing, badret, vcount, uaf, 
-                                taint4, taint5, stack, cn, cp, i, klist, w, tn, 
-                                p, dn, nt, xn, xcl, wn, wp, wdl, fail, fn, fp, 
-                                cdl, cv, cwk, objs, adl, single, wm, k, rt, 
-                                cnt, rdy, enq, wq, unl, sdl, scn, sct, sldl, 
-                                snear, sso, st, pn >>
+                                taint4, taint5, taint6, stack, cn, cp, i, 
+                                klist, w, tn, p, dn, nt, xn, xcl, wn, wp, wdl, 
+                                fail, fn, fp, cdl, cv, cwk, objs, adl, single, 
+                                wm, k, rt, cnt, rdy, enq, wq, unl, sdl, scn, 
+                                sct, sldl, snear, sso, st, pn >>
 
 nf_k_l(self) == /\ pc[self] = "nf_k_l"
                 /\ IF fi[self] > Len(fk[self])
@@ -1269,11 +1281,11 @@ nf_k_l(self) == /\ pc[self] = "nf_k_l"
                                 nww, sem, cval, cwaited, cq, clk, nwc, cmu, 
                                 badmu, cz, now, ip, ret, dres, called, dl0, 
                                 lpar, wfor, freeing, badret, vcount, uaf, 
-                                taint4, taint5, stack, cn, cp, i, klist, w, tn, 
-                                p, dn, nt, xn, xcl, wn, wp, wdl, fail, fn, fp, 
-                                fi, fk, cdl, cv, cwk, objs, adl, single, wm, k, 
-                                rt, cnt, rdy, enq, wq, unl, sdl, scn, sct, 
-                                sldl, snear, sso, st, pn >>
+                                taint4, taint5, taint6, stack, cn, cp, i, 
+                                klist, w, tn, p, dn, nt, xn, xcl, wn, wp, wdl, 
+                                fail, fn, fp, fi, fk, cdl, cv, cwk, objs, adl, 
+                                single, wm, k, rt, cnt, rdy, enq, wq, unl, sdl, 
+                                scn, sct, sldl, snear, sso, st, pn >>
 
 nf_6_lk(self) == /\ pc[self] = "nf_6_lk"
                  /\ lk[fk[self][fi[self]]] = 0
@@ -1283,11 +1295,11 @@ nf_6_lk(self) == /\ pc[self] = "nf_6_lk"
                                  nww, sem, cval, cwaited, cq, clk, nwc, cmu, 
                                  badmu, cz, now, ip, ret, dres, called, dl0, 
                                  lpar, wfor, freeing, badret, vcount, uaf, 
-                                 taint4, taint5, stack, cn, cp, i, klist, w, 
-                                 tn, p, dn, nt, xn, xcl, wn, wp, wdl, fail, fn, 
-                                 fp, fi, fk, cdl, cv, cwk, objs, adl, single, 
-                                 wm, k, rt, cnt, rdy, enq, wq, unl, sdl, scn, 
-                                 sct, sldl, snear, sso, st, pn >>
+                                 taint4, taint5, taint6, stack, cn, cp, i, 
+                                 klist, w, tn, p, dn, nt, xn, xcl, wn, wp, wdl, 
+                                 fail, fn, fp, fi, fk, cdl, cv, cwk, objs, adl, 
+                                 single, wm, k, rt, cnt, rdy, enq, wq, unl, 
+                                 sdl, scn, sct, sldl, snear, sso, st, pn >>
 
 nf_6_l(self) == /\ pc[self] = "nf_6_l"
                 /\ IF disc[fk[self][fi[self]]] = 0
@@ -1301,12 +1313,12 @@ nf_6_l(self) == /\ pc[self] = "nf_6_l"
                 /\ UNCHANGED << live, notified, exp, wts, disc, lk, nww, sem, 
                                 cval, cwaited, cq, clk, nwc, cmu, badmu, cz, 
                                 now, ip, ret, dres, called, dl0, lpar, wfor, 
-                                freeing, badret, vcount, uaf, taint5, stack, 
-                                cn, cp, i, klist, w, tn, p, dn, nt, xn, xcl, 
-                                wn, wp, wdl, fail, fn, fp, fi, fk, cdl, cv, 
-                                cwk, objs, adl, single, wm, k, rt, cnt, rdy, 
-                                enq, wq, unl, sdl, scn, sct, sldl, snear, sso, 
-                                st, pn >>
+                                freeing, badret, vcount, uaf, taint5, taint6, 
+                                stack, cn, cp, i, klist, w, tn, p, dn, nt, xn, 
+                                xcl, wn, wp, wdl, fail, fn, fp, fi, fk, cdl, 
+                                cv, cwk, objs, adl, single, wm, k, rt, cnt, 
+                                rdy, enq, wq, unl, sdl, scn, sct, sldl, snear, 
+                                sso, st, pn >>
 
 nf_7_ul(self) == /\ pc[self] = "nf_7_ul"
                  /\ lk' = [lk EXCEPT ![fk[self][fi[self]]] = 0]
@@ -1316,11 +1328,11 @@ nf_7_ul(self) == /\ pc[self] = "nf_7_ul"
                                  nww, sem, cval, cwaited, cq, clk, nwc, cmu, 
                                  badmu, cz, now, ip, ret, dres, called, dl0, 
                                  lpar, wfor, freeing, badret, vcount, uaf, 
-                                 taint4, taint5, stack, cn, cp, i, klist, w, 
-                                 tn, p, dn, nt, xn, xcl, wn, wp, wdl, fail, fn, 
-                                 fp, fk, cdl, cv, cwk, objs, adl, single, wm, 
-                                 k, rt, cnt, rdy, enq, wq, unl, sdl, scn, sct, 
-                                 sldl, snear, sso, st, pn >>
+                                 taint4, taint5, taint6, stack, cn, cp, i, 
+                                 klist, w, tn, p, dn, nt, xn, xcl, wn, wp, wdl, 
+                                 fail, fn, fp, fk, cdl, cv, cwk, objs, adl, 
+                                 single, wm, k, rt, cnt, rdy, enq, wq, unl, 
+                                 sdl, scn, sct, sldl, snear, sso, st, pn >>
 
 nf_8_r(self) == /\ pc[self] = "nf_8_r"
                 /\ IF kids[fn[self]] # <<>>
@@ -1332,11 +1344,11 @@ nf_8_r(self) == /\ pc[self] = "nf_8_r"
                                 sem, cval, cwaited, cq, clk, nwc, cmu, badmu, 
                                 cz, now, ip, ret, dres, called, dl0, lpar, 
                                 wfor, freeing, badret, vcount, uaf, taint4, 
-                                taint5, stack, cn, cp, i, klist, w, tn, p, dn, 
-                                nt, xn, xcl, wn, wp, wdl, fail, fn, fp, fi, fk, 
-                                cdl, cv, cwk, objs, adl, single, wm, k, rt, 
-                                cnt, rdy, enq, wq, unl, sdl, scn, sct, sldl, 
-                                snear, sso, st, pn >>
+                                taint5, taint6, stack, cn, cp, i, klist, w, tn, 
+                                p, dn, nt, xn, xcl, wn, wp, wdl, fail, fn, fp, 
+                                fi, fk, cdl, cv, cwk, objs, adl, single, wm, k, 
+                                rt, cnt, rdy, enq, wq, unl, sdl, scn, sct, 
+                                sldl, snear, sso, st, pn >>
 
 nf_9_lk(self) == /\ pc[self] = "nf_9_lk"
                  /\ lk[fn[self]] = 0 /\ kids[fn[self]] = <<>>
@@ -1346,11 +1358,11 @@ nf_9_lk(self) == /\ pc[self] = "nf_9_lk"
                                  nww, sem, cval, cwaited, cq, clk, nwc, cmu, 
                                  badmu, cz, now, ip, ret, dres, called, dl0, 
                                  lpar, wfor, freeing, badret, vcount, uaf, 
-                                 taint4, taint5, stack, cn, cp, i, klist, w, 
-                                 tn, p, dn, nt, xn, xcl, wn, wp, wdl, fail, fn, 
-                                 fp, fi, fk, cdl, cv, cwk, objs, adl, single, 
-                                 wm, k, rt, cnt, rdy, enq, wq, unl, sdl, scn, 
-                                 sct, sldl, snear, sso, st, pn >>
+                                 taint4, taint5, taint6, stack, cn, cp, i, 
+                                 klist, w, tn, p, dn, nt, xn, xcl, wn, wp, wdl, 
+                                 fail, fn, fp, fi, fk, cdl, cv, cwk, objs, adl, 
+                                 single, wm, k, rt, cnt, rdy, enq, wq, unl, 
+                                 sdl, scn, sct, sldl, snear, sso, st, pn >>
 
 nf_10_l(self) == /\ pc[self] = "nf_10_l"
                  /\ IF fp[self] = 0
@@ -1363,11 +1375,11 @@ nf_10_l(self) == /\ pc[self] = "nf_10_l"
                                  cval, cwaited, cq, clk, nwc, cmu, badmu, cz, 
                                  now, ip, ret, dres, called, dl0, lpar, wfor, 
                                  freeing, badret, vcount, uaf, taint4, taint5, 
-                                 stack, cn, cp, i, klist, w, tn, p, dn, nt, xn, 
-                                 xcl, wn, wp, wdl, fail, fn, fp, fi, fk, cdl, 
-                                 cv, cwk, objs, adl, single, wm, k, rt, cnt, 
-                                 rdy, enq, wq, unl, sdl, scn, sct, sldl, snear, 
-                                 sso, st, pn >>
+                                 taint6, stack, cn, cp, i, klist, w, tn, p, dn, 
+                                 nt, xn, xcl, wn, wp, wdl, fail, fn, fp, fi, 
+                                 fk, cdl, cv, cwk, objs, adl, single, wm, k, 
+                                 rt, cnt, rdy, enq, wq, unl, sdl, scn, sct, 
+                                 sldl, snear, sso, st, pn >>
 
 nf_11_ul(self) == /\ pc[self] = "nf_11_ul"
                   /\ lk' = [lk EXCEPT ![fp[self]] = 0]
@@ -1376,11 +1388,12 @@ nf_11_ul(self) == /\ pc[self] = "nf_11_ul"
                                   nww, sem, cval, cwaited, cq, clk, nwc, cmu, 
                                   badmu, cz, now, ip, ret, dres, called, dl0, 
                                   lpar, wfor, freeing, badret, vcount, uaf, 
-                                  taint4, taint5, stack, cn, cp, i, klist, w, 
-                                  tn, p, dn, nt, xn, xcl, wn, wp, wdl, fail, 
-                                  fn, fp, fi, fk, cdl, cv, cwk, objs, adl, 
-                                  single, wm, k, rt, cnt, rdy, enq, wq, unl, 
-                                  sdl, scn, sct, sldl, snear, sso, st, pn >>
+                                  taint4, taint5, taint6, stack, cn, cp, i, 
+                                  klist, w, tn, p, dn, nt, xn, xcl, wn, wp, 
+                                  wdl, fail, fn, fp, fi, fk, cdl, cv, cwk, 
+                                  objs, adl, single, wm, k, rt, cnt, rdy, enq, 
+                                  wq, unl, sdl, scn, sct, sldl, snear, sso, st, 
+                                  pn >>
 
 nf_12_l(self) == /\ pc[self] = "nf_12_l"
                  /\ disc' = [disc EXCEPT ![fn[self]] = disc[fn[self]] - 1]
@@ -1389,11 +1402,11 @@ nf_12_l(self) == /\ pc[self] = "nf_12_l"
                                  sem, cval, cwaited, cq, clk, nwc, cmu, badmu, 
                                  cz, now, ip, ret, dres, called, dl0, lpar, 
                                  wfor, freeing, badret, vcount, uaf, taint4, 
-                                 taint5, stack, cn, cp, i, klist, w, tn, p, dn, 
-                                 nt, xn, xcl, wn, wp, wdl, fail, fn, fp, fi, 
-                                 fk, cdl, cv, cwk, objs, adl, single, wm, k, 
-                                 rt, cnt, rdy, enq, wq, unl, sdl, scn, sct, 
-                                 sldl, snear, sso, st, pn >>
+                                 taint5, taint6, stack, cn, cp, i, klist, w, 
+                                 tn, p, dn, nt, xn, xcl, wn, wp, wdl, fail, fn, 
+                                 fp, fi, fk, cdl, cv, cwk, objs, adl, single, 
+                                 wm, k, rt, cnt, rdy, enq, wq, unl, sdl, scn, 
+                                 sct, sldl, snear, sso, st, pn >>
 
 nf_13_ul(self) == /\ pc[self] = "nf_13_ul"
                   /\ lk' = [lk EXCEPT ![fn[self]] = 0]
@@ -1410,11 +1423,11 @@ nf_13_ul(self) == /\ pc[self] = "nf_13_ul"
                   /\ UNCHANGED << notified, exp, par, kids, wts, disc, nww, 
                                   sem, cval, cwaited, cq, clk, nwc, cmu, badmu, 
                                   cz, now, ip, dres, dl0, wfor, freeing, 
-                                  badret, vcount, uaf, taint4, taint5, cn, cp, 
-                                  i, klist, w, tn, p, dn, nt, xn, xcl, wn, wp, 
-                                  wdl, fail, cdl, cv, cwk, objs, adl, single, 
-                                  wm, k, rt, cnt, rdy, enq, wq, unl, sdl, scn, 
-                                  sct, sldl, snear, sso, st, pn >>
+                                  badret, vcount, uaf, taint4, taint5, taint6, 
+                                  cn, cp, i, klist, w, tn, p, dn, nt, xn, xcl, 
+                                  wn, wp, wdl, fail, cdl, cv, cwk, objs, adl, 
+                                  single, wm, k, rt, cnt, rdy, enq, wq, unl, 
+                                  sdl, scn, sct, sldl, snear, sso, st, pn >>
 
 nfree(self) == nf_1_lk(self) \/ nf_1_l(self) \/ nf_2_r(self)
                   \/ nf_3_ul(self) \/ nf_4_lk(self) \/ nf_4b_lk(self)
@@ -1430,11 +1443,11 @@ cr_1_st(self) == /\ pc[self] = "cr_1_st"
                                  nww, sem, cval, cq, clk, nwc, cmu, badmu, cz, 
                                  now, ip, ret, dres, called, dl0, lpar, wfor, 
                                  freeing, badret, vcount, uaf, taint4, taint5, 
-                                 stack, cn, cp, i, klist, w, tn, p, dn, nt, xn, 
-                                 xcl, wn, wp, wdl, fail, fn, fp, fi, fk, cdl, 
-                                 cv, cwk, objs, adl, single, wm, k, rt, cnt, 
-                                 rdy, enq, wq, unl, sdl, scn, sct, sldl, snear, 
-                                 sso, st, pn >>
+                                 taint6, stack, cn, cp, i, klist, w, tn, p, dn, 
+                                 nt, xn, xcl, wn, wp, wdl, fail, fn, fp, fi, 
+                                 fk, cdl, cv, cwk, objs, adl, single, wm, k, 
+                                 rt, cnt, rdy, enq, wq, unl, sdl, scn, sct, 
+                                 sldl, snear, sso, st, pn >>
 
 cr_2_ld(self) == /\ pc[self] = "cr_2_ld"
                  /\ dres' = [dres EXCEPT ![self] = IF cval = 0 THEN ZERO ELSE NONE]
@@ -1444,11 +1457,11 @@ cr_2_ld(self) == /\ pc[self] = "cr_2_ld"
                                  nww, sem, cval, cwaited, cq, clk, nwc, cmu, 
                                  badmu, cz, now, ip, ret, called, dl0, lpar, 
                                  wfor, freeing, badret, vcount, uaf, taint4, 
-                                 taint5, cn, cp, i, klist, w, tn, p, dn, nt, 
-                                 xn, xcl, wn, wp, wdl, fail, fn, fp, fi, fk, 
-                                 cdl, cv, cwk, objs, adl, single, wm, k, rt, 
-                                 cnt, rdy, enq, wq, unl, sdl, scn, sct, sldl, 
-                                 snear, sso, st, pn >>
+                                 taint5, taint6, cn, cp, i, klist, w, tn, p, 
+                                 dn, nt, xn, xcl, wn, wp, wdl, fail, fn, fp, 
+                                 fi, fk, cdl, cv, cwk, objs, adl, single, wm, 
+                                 k, rt, cnt, rdy, enq, wq, unl, sdl, scn, sct, 
+                                 sldl, snear, sso, st, pn >>
 
 cready(self) == cr_1_st(self) \/ cr_2_ld(self)
 
@@ -1460,11 +1473,11 @@ ca_1_lk(self) == /\ pc[self] = "ca_1_lk"
                                  nww, sem, cval, cwaited, cq, nwc, cmu, badmu, 
                                  cz, now, ip, ret, dres, called, dl0, lpar, 
                                  wfor, freeing, badret, vcount, uaf, taint4, 
-                                 taint5, stack, cn, cp, i, klist, w, tn, p, dn, 
-                                 nt, xn, xcl, wn, wp, wdl, fail, fn, fp, fi, 
-                                 fk, cdl, cv, cwk, objs, adl, single, wm, k, 
-                                 rt, cnt, rdy, enq, wq, unl, sdl, scn, sct, 
-                                 sldl, snear, sso, st, pn >>
+                                 taint5, taint6, stack, cn, cp, i, klist, w, 
+                                 tn, p, dn, nt, xn, xcl, wn, wp, wdl, fail, fn, 
+                                 fp, fi, fk, cdl, cv, cwk, objs, adl, single, 
+                                 wm, k, rt, cnt, rdy, enq, wq, unl, sdl, scn, 
+                                 sct, sldl, snear, sso, st, pn >>
 
 ca_2_ld(self) == /\ pc[self] = "ca_2_ld"
                  /\ cv' = [cv EXCEPT ![self] = cval]
@@ -1473,11 +1486,11 @@ ca_2_ld(self) == /\ pc[self] = "ca_2_ld"
                                  nww, sem, cval, cwaited, cq, clk, nwc, cmu, 
                                  badmu, cz, now, ip, ret, dres, called, dl0, 
                                  lpar, wfor, freeing, badret, vcount, uaf, 
-                                 taint4, taint5, stack, cn, cp, i, klist, w, 
-                                 tn, p, dn, nt, xn, xcl, wn, wp, wdl, fail, fn, 
-                                 fp, fi, fk, cdl, cwk, objs, adl, single, wm, 
-                                 k, rt, cnt, rdy, enq, wq, unl, sdl, scn, sct, 
-                                 sldl, snear, sso, st, pn >>
+                                 taint4, taint5, taint6, stack, cn, cp, i, 
+                                 klist, w, tn, p, dn, nt, xn, xcl, wn, wp, wdl, 
+                                 fail, fn, fp, fi, fk, cdl, cwk, objs, adl, 
+                                 single, wm, k, rt, cnt, rdy, enq, wq, unl, 
+                                 sdl, scn, sct, sldl, snear, sso, st, pn >>
 
 ca_3_cas(self) == /\ pc[self] = "ca_3_cas"
                   /\ IF cval = cv[self]
@@ -1491,11 +1504,11 @@ ca_3_cas(self) == /\ pc[self] = "ca_3_cas"
                                   lk, nww, sem, cwaited, cq, clk, nwc, cmu, 
                                   badmu, now, ip, ret, dres, called, dl0, lpar, 
                                   wfor, freeing, badret, vcount, uaf, taint4, 
-                                  taint5, stack, cn, cp, i, klist, w, tn, p, 
-                                  dn, nt, xn, xcl, wn, wp, wdl, fail, fn, fp, 
-                                  fi, fk, cdl, cwk, objs, adl, single, wm, k, 
-                                  rt, cnt, rdy, enq, wq, unl, sdl, scn, sct, 
-                                  sldl, snear, sso, st, pn >>
+                                  taint5, taint6, stack, cn, cp, i, klist, w, 
+                                  tn, p, dn, nt, xn, xcl, wn, wp, wdl, fail, 
+                                  fn, fp, fi, fk, cdl, cwk, objs, adl, single, 
+                                  wm, k, rt, cnt, rdy, enq, wq, unl, sdl, scn, 
+                                  sct, sldl, snear, sso, st, pn >>
 
 ca_4_l(self) == /\ pc[self] = "ca_4_l"
                 /\ IF cdl[self] > 0 /\ cv[self] = cdl[self]
@@ -1505,25 +1518,25 @@ ca_4_l(self) == /\ pc[self] = "ca_4_l"
                                 nww, sem, cval, cwaited, cq, clk, nwc, cmu, 
                                 badmu, cz, now, ip, ret, dres, called, dl0, 
                                 lpar, wfor, freeing, badret, vcount, uaf, 
-                                taint4, taint5, stack, cn, cp, i, klist, w, tn, 
-                                p, dn, nt, xn, xcl, wn, wp, wdl, fail, fn, fp, 
-                                fi, fk, cdl, cv, cwk, objs, adl, single, wm, k, 
-                                rt, cnt, rdy, enq, wq, unl, sdl, scn, sct, 
-                                sldl, snear, sso, st, pn >>
+                                taint4, taint5, taint6, stack, cn, cp, i, 
+                                klist, w, tn, p, dn, nt, xn, xcl, wn, wp, wdl, 
+                                fail, fn, fp, fi, fk, cdl, cv, cwk, objs, adl, 
+                                single, wm, k, rt, cnt, rdy, enq, wq, unl, sdl, 
+                                scn, sct, sldl, snear, sso, st, pn >>
 
 ca_4_ld(self) == /\ pc[self] = "ca_4_ld"
                  /\ Assert(cwaited = 0, 
-                           "Failure of assertion at line 221, column 14.")
+                           "Failure of assertion at line 223, column 14.")
                  /\ pc' = [pc EXCEPT ![self] = "ca_5_l"]
                  /\ UNCHANGED << live, notified, exp, par, kids, wts, disc, lk, 
                                  nww, sem, cval, cwaited, cq, clk, nwc, cmu, 
                                  badmu, cz, now, ip, ret, dres, called, dl0, 
                                  lpar, wfor, freeing, badret, vcount, uaf, 
-                                 taint4, taint5, stack, cn, cp, i, klist, w, 
-                                 tn, p, dn, nt, xn, xcl, wn, wp, wdl, fail, fn, 
-                                 fp, fi, fk, cdl, cv, cwk, objs, adl, single, 
-                                 wm, k, rt, cnt, rdy, enq, wq, unl, sdl, scn, 
-                                 sct, sldl, snear, sso, st, pn >>
+                                 taint4, taint5, taint6, stack, cn, cp, i, 
+                                 klist, w, tn, p, dn, nt, xn, xcl, wn, wp, wdl, 
+                                 fail, fn, fp, fi, fk, cdl, cv, cwk, objs, adl, 
+                                 single, wm, k, rt, cnt, rdy, enq, wq, unl, 
+                                 sdl, scn, sct, sldl, snear, sso, st, pn >>
 
 ca_5_l(self) == /\ pc[self] = "ca_5_l"
                 /\ IF cv[self] # 0 \/ cq = <<>>
@@ -1536,11 +1549,11 @@ ca_5_l(self) == /\ pc[self] = "ca_5_l"
                                 nww, sem, cval, cwaited, clk, nwc, cmu, badmu, 
                                 cz, now, ip, ret, dres, called, dl0, lpar, 
                                 wfor, freeing, badret, vcount, uaf, taint4, 
-                                taint5, stack, cn, cp, i, klist, w, tn, p, dn, 
-                                nt, xn, xcl, wn, wp, wdl, fail, fn, fp, fi, fk, 
-                                cdl, cv, objs, adl, single, wm, k, rt, cnt, 
-                                rdy, enq, wq, unl, sdl, scn, sct, sldl, snear, 
-                                sso, st, pn >>
+                                taint5, taint6, stack, cn, cp, i, klist, w, tn, 
+                                p, dn, nt, xn, xcl, wn, wp, wdl, fail, fn, fp, 
+                                fi, fk, cdl, cv, objs, adl, single, wm, k, rt, 
+                                cnt, rdy, enq, wq, unl, sdl, scn, sct, sldl, 
+                                snear, sso, st, pn >>
 
 ca_5_st(self) == /\ pc[self] = "ca_5_st"
                  /\ nwc' = [nwc EXCEPT ![cwk[self]] = 0]
@@ -1549,11 +1562,11 @@ ca_5_st(self) == /\ pc[self] = "ca_5_st"
                                  nww, sem, cval, cwaited, cq, clk, cmu, badmu, 
                                  cz, now, ip, ret, dres, called, dl0, lpar, 
                                  wfor, freeing, badret, vcount, uaf, taint4, 
-                                 taint5, stack, cn, cp, i, klist, w, tn, p, dn, 
-                                 nt, xn, xcl, wn, wp, wdl, fail, fn, fp, fi, 
-                                 fk, cdl, cv, cwk, objs, adl, single, wm, k, 
-                                 rt, cnt, rdy, enq, wq, unl, sdl, scn, sct, 
-                                 sldl, snear, sso, st, pn >>
+                                 taint5, taint6, stack, cn, cp, i, klist, w, 
+                                 tn, p, dn, nt, xn, xcl, wn, wp, wdl, fail, fn, 
+                                 fp, fi, fk, cdl, cv, cwk, objs, adl, single, 
+                                 wm, k, rt, cnt, rdy, enq, wq, unl, sdl, scn, 
+                                 sct, sldl, snear, sso, st, pn >>
 
 ca_6_v(self) == /\ pc[self] = "ca_6_v"
                 /\ sem' = [sem EXCEPT ![cwk[self]] = sem[cwk[self]] + 1]
@@ -1563,11 +1576,11 @@ ca_6_v(self) == /\ pc[self] = "ca_6_v"
                                 nww, cval, cwaited, cq, clk, nwc, cmu, badmu, 
                                 cz, now, ip, ret, dres, called, dl0, lpar, 
                                 wfor, freeing, badret, uaf, taint4, taint5, 
-                                stack, cn, cp, i, klist, w, tn, p, dn, nt, xn, 
-                                xcl, wn, wp, wdl, fail, fn, fp, fi, fk, cdl, 
-                                cv, cwk, objs, adl, single, wm, k, rt, cnt, 
-                                rdy, enq, wq, unl, sdl, scn, sct, sldl, snear, 
-                                sso, st, pn >>
+                                taint6, stack, cn, cp, i, klist, w, tn, p, dn, 
+                                nt, xn, xcl, wn, wp, wdl, fail, fn, fp, fi, fk, 
+                                cdl, cv, cwk, objs, adl, single, wm, k, rt, 
+                                cnt, rdy, enq, wq, unl, sdl, scn, sct, sldl, 
+                                snear, sso, st, pn >>
 
 ca_7_ul(self) == /\ pc[self] = "ca_7_ul"
                  /\ clk' = 0
@@ -1581,10 +1594,11 @@ ca_7_ul(self) == /\ pc[self] = "ca_7_ul"
                                  nww, sem, cval, cwaited, cq, nwc, cmu, badmu, 
                                  cz, now, ip, dres, called, dl0, lpar, wfor, 
                                  freeing, badret, vcount, uaf, taint4, taint5, 
-                                 cn, cp, i, klist, w, tn, p, dn, nt, xn, xcl, 
-                                 wn, wp, wdl, fail, fn, fp, fi, fk, objs, adl, 
-                                 single, wm, k, rt, cnt, rdy, enq, wq, unl, 
-                                 sdl, scn, sct, sldl, snear, sso, st, pn >>
+                                 taint6, cn, cp, i, klist, w, tn, p, dn, nt, 
+                                 xn, xcl, wn, wp, wdl, fail, fn, fp, fi, fk, 
+                                 objs, adl, single, wm, k, rt, cnt, rdy, enq, 
+                                 wq, unl, sdl, scn, sct, sldl, snear, sso, st, 
+                                 pn >>
 
 cadd(self) == ca_1_lk(self) \/ ca_2_ld(self) \/ ca_3_cas(self)
                  \/ ca_4_l(self) \/ ca_4_ld(self) \/ ca_5_l(self)
@@ -1614,11 +1628,11 @@ ws_1_l(self) == /\ pc[self] = "ws_1_l"
                                 nww, sem, cval, cwaited, cq, clk, nwc, cmu, 
                                 badmu, cz, now, ip, ret, dres, called, dl0, 
                                 lpar, wfor, freeing, badret, vcount, uaf, 
-                                taint4, taint5, cn, cp, i, klist, w, tn, p, xn, 
-                                xcl, wn, wp, wdl, fail, fn, fp, fi, fk, cdl, 
-                                cv, cwk, objs, adl, single, wm, rt, cnt, rdy, 
-                                enq, wq, unl, sdl, scn, sct, sldl, snear, sso, 
-                                st, pn >>
+                                taint4, taint5, taint6, cn, cp, i, klist, w, 
+                                tn, p, xn, xcl, wn, wp, wdl, fail, fn, fp, fi, 
+                                fk, cdl, cv, cwk, objs, adl, single, wm, rt, 
+                                cnt, rdy, enq, wq, unl, sdl, scn, sct, sldl, 
+                                snear, sso, st, pn >>
 
 ws_2_l(self) == /\ pc[self] = "ws_2_l"
                 /\ IF dres[self] = ZERO
@@ -1644,10 +1658,10 @@ ws_2_l(self) == /\ pc[self] = "ws_2_l"
                                 nww, sem, cval, cwaited, cq, clk, nwc, cmu, 
                                 badmu, cz, now, ip, dres, called, dl0, lpar, 
                                 wfor, freeing, badret, vcount, uaf, taint4, 
-                                taint5, cn, cp, i, klist, w, tn, p, dn, nt, xn, 
-                                xcl, wn, wp, wdl, fail, fn, fp, fi, fk, cdl, 
-                                cv, cwk, sdl, scn, sct, sldl, snear, sso, st, 
-                                pn >>
+                                taint5, taint6, cn, cp, i, klist, w, tn, p, dn, 
+                                nt, xn, xcl, wn, wp, wdl, fail, fn, fp, fi, fk, 
+                                cdl, cv, cwk, sdl, scn, sct, sldl, snear, sso, 
+                                st, pn >>
 
 we_1_l(self) == /\ pc[self] = "we_1_l"
                 /\ IF k[self] > Len(objs[self])
@@ -1657,11 +1671,11 @@ we_1_l(self) == /\ pc[self] = "we_1_l"
                                 nww, sem, cval, cwaited, cq, clk, nwc, cmu, 
                                 badmu, cz, now, ip, ret, dres, called, dl0, 
                                 lpar, wfor, freeing, badret, vcount, uaf, 
-                                taint4, taint5, stack, cn, cp, i, klist, w, tn, 
-                                p, dn, nt, xn, xcl, wn, wp, wdl, fail, fn, fp, 
-                                fi, fk, cdl, cv, cwk, objs, adl, single, wm, k, 
-                                rt, cnt, rdy, enq, wq, unl, sdl, scn, sct, 
-                                sldl, snear, sso, st, pn >>
+                                taint4, taint5, taint6, stack, cn, cp, i, 
+                                klist, w, tn, p, dn, nt, xn, xcl, wn, wp, wdl, 
+                                fail, fn, fp, fi, fk, cdl, cv, cwk, objs, adl, 
+                                single, wm, k, rt, cnt, rdy, enq, wq, unl, sdl, 
+                                scn, sct, sldl, snear, sso, st, pn >>
 
 wn_1_st(self) == /\ pc[self] = "wn_1_st"
                  /\ IF objs[self][k[self]] = CTR
@@ -1675,11 +1689,11 @@ wn_1_st(self) == /\ pc[self] = "wn_1_st"
                                  sem, cval, cwaited, cq, clk, cmu, badmu, cz, 
                                  now, ip, ret, dres, called, dl0, lpar, wfor, 
                                  freeing, badret, vcount, uaf, taint4, taint5, 
-                                 stack, cn, cp, i, klist, w, tn, p, dn, nt, xn, 
-                                 xcl, wn, wp, wdl, fail, fn, fp, fi, fk, cdl, 
-                                 cv, cwk, objs, adl, single, wm, k, rt, cnt, 
-                                 rdy, enq, wq, unl, sdl, scn, sct, sldl, snear, 
-                                 sso, st, pn >>
+                                 taint6, stack, cn, cp, i, klist, w, tn, p, dn, 
+                                 nt, xn, xcl, wn, wp, wdl, fail, fn, fp, fi, 
+                                 fk, cdl, cv, cwk, objs, adl, single, wm, k, 
+                                 rt, cnt, rdy, enq, wq, unl, sdl, scn, sct, 
+                                 sldl, snear, sso, st, pn >>
 
 ne_1_lk(self) == /\ pc[self] = "ne_1_lk"
                  /\ lk[objs[self][k[self]]] = 0
@@ -1690,11 +1704,11 @@ ne_1_lk(self) == /\ pc[self] = "ne_1_lk"
                                  nww, sem, cval, cwaited, cq, clk, nwc, cmu, 
                                  badmu, cz, now, ip, ret, dres, called, dl0, 
                                  lpar, wfor, freeing, badret, vcount, taint4, 
-                                 taint5, stack, cn, cp, i, klist, w, tn, p, dn, 
-                                 nt, xn, xcl, wn, wp, wdl, fail, fn, fp, fi, 
-                                 fk, cdl, cv, cwk, objs, adl, single, wm, k, 
-                                 rt, cnt, rdy, enq, wq, unl, sdl, scn, sct, 
-                                 sldl, snear, sso, st, pn >>
+                                 taint5, taint6, stack, cn, cp, i, klist, w, 
+                                 tn, p, dn, nt, xn, xcl, wn, wp, wdl, fail, fn, 
+                                 fp, fi, fk, cdl, cv, cwk, objs, adl, single, 
+                                 wm, k, rt, cnt, rdy, enq, wq, unl, sdl, scn, 
+                                 sct, sldl, snear, sso, st, pn >>
 
 ne_2_ld(self) == /\ pc[self] = "ne_2_ld"
                  /\ enq' = [enq EXCEPT ![self] = NTime(objs[self][k[self]]) > ZERO]
@@ -1707,11 +1721,11 @@ ne_2_ld(self) == /\ pc[self] = "ne_2_ld"
                                  sem, cval, cwaited, cq, clk, nwc, cmu, badmu, 
                                  cz, now, ip, ret, dres, called, dl0, lpar, 
                                  wfor, freeing, badret, vcount, uaf, taint4, 
-                                 taint5, stack, cn, cp, i, klist, w, tn, p, dn, 
-                                 nt, xn, xcl, wn, wp, wdl, fail, fn, fp, fi, 
-                                 fk, cdl, cv, cwk, objs, adl, single, wm, k, 
-                                 rt, cnt, rdy, wq, unl, sdl, scn, sct, sldl, 
-                                 snear, sso, st, pn >>
+                                 taint5, taint6, stack, cn, cp, i, klist, w, 
+                                 tn, p, dn, nt, xn, xcl, wn, wp, wdl, fail, fn, 
+                                 fp, fi, fk, cdl, cv, cwk, objs, adl, single, 
+                                 wm, k, rt, cnt, rdy, wq, unl, sdl, scn, sct, 
+                                 sldl, snear, sso, st, pn >>
 
 ne_3_st(self) == /\ pc[self] = "ne_3_st"
                  /\ nww' = [nww EXCEPT ![self][objs[self][k[self]]] = IF enq[self] THEN 1 ELSE 0]
@@ -1720,11 +1734,11 @@ ne_3_st(self) == /\ pc[self] = "ne_3_st"
                                  sem, cval, cwaited, cq, clk, nwc, cmu, badmu, 
                                  cz, now, ip, ret, dres, called, dl0, lpar, 
                                  wfor, freeing, badret, vcount, uaf, taint4, 
-                                 taint5, stack, cn, cp, i, klist, w, tn, p, dn, 
-                                 nt, xn, xcl, wn, wp, wdl, fail, fn, fp, fi, 
-                                 fk, cdl, cv, cwk, objs, adl, single, wm, k, 
-                                 rt, cnt, rdy, enq, wq, unl, sdl, scn, sct, 
-                                 sldl, snear, sso, st, pn >>
+                                 taint5, taint6, stack, cn, cp, i, klist, w, 
+                                 tn, p, dn, nt, xn, xcl, wn, wp, wdl, fail, fn, 
+                                 fp, fi, fk, cdl, cv, cwk, objs, adl, single, 
+                                 wm, k, rt, cnt, rdy, enq, wq, unl, sdl, scn, 
+                                 sct, sldl, snear, sso, st, pn >>
 
 ne_4_ul(self) == /\ pc[self] = "ne_4_ul"
                  /\ lk' = [lk EXCEPT ![objs[self][k[self]]] = 0]
@@ -1733,11 +1747,11 @@ ne_4_ul(self) == /\ pc[self] = "ne_4_ul"
                                  nww, sem, cval, cwaited, cq, clk, nwc, cmu, 
                                  badmu, cz, now, ip, ret, dres, called, dl0, 
                                  lpar, wfor, freeing, badret, vcount, uaf, 
-                                 taint4, taint5, stack, cn, cp, i, klist, w, 
-                                 tn, p, dn, nt, xn, xcl, wn, wp, wdl, fail, fn, 
-                                 fp, fi, fk, cdl, cv, cwk, objs, adl, single, 
-                                 wm, k, rt, cnt, rdy, enq, wq, unl, sdl, scn, 
-                                 sct, sldl, snear, sso, st, pn >>
+                                 taint4, taint5, taint6, stack, cn, cp, i, 
+                                 klist, w, tn, p, dn, nt, xn, xcl, wn, wp, wdl, 
+                                 fail, fn, fp, fi, fk, cdl, cv, cwk, objs, adl, 
+                                 single, wm, k, rt, cnt, rdy, enq, wq, unl, 
+                                 sdl, scn, sct, sldl, snear, sso, st, pn >>
 
 ne_5_l(self) == /\ pc[self] = "ne_5_l"
                 /\ cnt' = [cnt EXCEPT ![self] = k[self]]
@@ -1752,11 +1766,11 @@ ne_5_l(self) == /\ pc[self] = "ne_5_l"
                                 nww, sem, cval, cwaited, cq, clk, nwc, cmu, 
                                 badmu, cz, now, ip, ret, dres, called, dl0, 
                                 lpar, wfor, freeing, badret, vcount, uaf, 
-                                taint4, taint5, stack, cn, cp, i, klist, w, tn, 
-                                p, dn, nt, xn, xcl, wn, wp, wdl, fail, fn, fp, 
-                                fi, fk, cdl, cv, cwk, objs, adl, single, wm, 
-                                rt, rdy, enq, wq, unl, sdl, scn, sct, sldl, 
-                                snear, sso, st, pn >>
+                                taint4, taint5, taint6, stack, cn, cp, i, 
+                                klist, w, tn, p, dn, nt, xn, xcl, wn, wp, wdl, 
+                                fail, fn, fp, fi, fk, cdl, cv, cwk, objs, adl, 
+                                single, wm, rt, rdy, enq, wq, unl, sdl, scn, 
+                                sct, sldl, snear, sso, st, pn >>
 
 ce_1_lk(self) == /\ pc[self] = "ce_1_lk"
                  /\ clk = 0
@@ -1766,11 +1780,11 @@ ce_1_lk(self) == /\ pc[self] = "ce_1_lk"
                                  nww, sem, cval, cwaited, cq, nwc, cmu, badmu, 
                                  cz, now, ip, ret, dres, called, dl0, lpar, 
                                  wfor, freeing, badret, vcount, uaf, taint4, 
-                                 taint5, stack, cn, cp, i, klist, w, tn, p, dn, 
-                                 nt, xn, xcl, wn, wp, wdl, fail, fn, fp, fi, 
-                                 fk, cdl, cv, cwk, objs, adl, single, wm, k, 
-                                 rt, cnt, rdy, enq, wq, unl, sdl, scn, sct, 
-                                 sldl, snear, sso, st, pn >>
+                                 taint5, taint6, stack, cn, cp, i, klist, w, 
+                                 tn, p, dn, nt, xn, xcl, wn, wp, wdl, fail, fn, 
+                                 fp, fi, fk, cdl, cv, cwk, objs, adl, single, 
+                                 wm, k, rt, cnt, rdy, enq, wq, unl, sdl, scn, 
+                                 sct, sldl, snear, sso, st, pn >>
 
 ce_2_ld(self) == /\ pc[self] = "ce_2_ld"
                  /\ enq' = [enq EXCEPT ![self] = cval # 0]
@@ -1783,11 +1797,11 @@ ce_2_ld(self) == /\ pc[self] = "ce_2_ld"
                                  nww, sem, cval, cwaited, clk, nwc, cmu, badmu, 
                                  cz, now, ip, ret, dres, called, dl0, lpar, 
                                  wfor, freeing, badret, vcount, uaf, taint4, 
-                                 taint5, stack, cn, cp, i, klist, w, tn, p, dn, 
-                                 nt, xn, xcl, wn, wp, wdl, fail, fn, fp, fi, 
-                                 fk, cdl, cv, cwk, objs, adl, single, wm, k, 
-                                 rt, cnt, rdy, wq, unl, sdl, scn, sct, sldl, 
-                                 snear, sso, st, pn >>
+                                 taint5, taint6, stack, cn, cp, i, klist, w, 
+                                 tn, p, dn, nt, xn, xcl, wn, wp, wdl, fail, fn, 
+                                 fp, fi, fk, cdl, cv, cwk, objs, adl, single, 
+                                 wm, k, rt, cnt, rdy, wq, unl, sdl, scn, sct, 
+                                 sldl, snear, sso, st, pn >>
 
 ce_3_st(self) == /\ pc[self] = "ce_3_st"
                  /\ nwc' = [nwc EXCEPT ![self] = IF enq[self] THEN 1 ELSE 0]
@@ -1796,11 +1810,11 @@ ce_3_st(self) == /\ pc[self] = "ce_3_st"
                                  nww, sem, cval, cwaited, cq, clk, cmu, badmu, 
                                  cz, now, ip, ret, dres, called, dl0, lpar, 
                                  wfor, freeing, badret, vcount, uaf, taint4, 
-                                 taint5, stack, cn, cp, i, klist, w, tn, p, dn, 
-                                 nt, xn, xcl, wn, wp, wdl, fail, fn, fp, fi, 
-                                 fk, cdl, cv, cwk, objs, adl, single, wm, k, 
-                                 rt, cnt, rdy, enq, wq, unl, sdl, scn, sct, 
-                                 sldl, snear, sso, st, pn >>
+                                 taint5, taint6, stack, cn, cp, i, klist, w, 
+                                 tn, p, dn, nt, xn, xcl, wn, wp, wdl, fail, fn, 
+                                 fp, fi, fk, cdl, cv, cwk, objs, adl, single, 
+                                 wm, k, rt, cnt, rdy, enq, wq, unl, sdl, scn, 
+                                 sct, sldl, snear, sso, st, pn >>
 
 ce_4_ul(self) == /\ pc[self] = "ce_4_ul"
                  /\ clk' = 0
@@ -1809,11 +1823,11 @@ ce_4_ul(self) == /\ pc[self] = "ce_4_ul"
                                  nww, sem, cval, cwaited, cq, nwc, cmu, badmu, 
                                  cz, now, ip, ret, dres, called, dl0, lpar, 
                                  wfor, freeing, badret, vcount, uaf, taint4, 
-                                 taint5, stack, cn, cp, i, klist, w, tn, p, dn, 
-                                 nt, xn, xcl, wn, wp, wdl, fail, fn, fp, fi, 
-                                 fk, cdl, cv, cwk, objs, adl, single, wm, k, 
-                                 rt, cnt, rdy, enq, wq, unl, sdl, scn, sct, 
-                                 sldl, snear, sso, st, pn >>
+                                 taint5, taint6, stack, cn, cp, i, klist, w, 
+                                 tn, p, dn, nt, xn, xcl, wn, wp, wdl, fail, fn, 
+                                 fp, fi, fk, cdl, cv, cwk, objs, adl, single, 
+                                 wm, k, rt, cnt, rdy, enq, wq, unl, sdl, scn, 
+                                 sct, sldl, snear, sso, st, pn >>
 
 wu_0_l(self) == /\ pc[self] = "wu_0_l"
                 /\ IF ~wm[self]
@@ -1823,11 +1837,11 @@ wu_0_l(self) == /\ pc[self] = "wu_0_l"
                                 nww, sem, cval, cwaited, cq, clk, nwc, cmu, 
                                 badmu, cz, now, ip, ret, dres, called, dl0, 
                                 lpar, wfor, freeing, badret, vcount, uaf, 
-                                taint4, taint5, stack, cn, cp, i, klist, w, tn, 
-                                p, dn, nt, xn, xcl, wn, wp, wdl, fail, fn, fp, 
-                                fi, fk, cdl, cv, cwk, objs, adl, single, wm, k, 
-                                rt, cnt, rdy, enq, wq, unl, sdl, scn, sct, 
-                                sldl, snear, sso, st, pn >>
+                                taint4, taint5, taint6, stack, cn, cp, i, 
+                                klist, w, tn, p, dn, nt, xn, xcl, wn, wp, wdl, 
+                                fail, fn, fp, fi, fk, cdl, cv, cwk, objs, adl, 
+                                single, wm, k, rt, cnt, rdy, enq, wq, unl, sdl, 
+                                scn, sct, sldl, snear, sso, st, pn >>
 
 wu_1_ul(self) == /\ pc[self] = "wu_1_ul"
                  /\ cmu' = 0
@@ -1837,11 +1851,11 @@ wu_1_ul(self) == /\ pc[self] = "wu_1_ul"
                                  nww, sem, cval, cwaited, cq, clk, nwc, badmu, 
                                  cz, now, ip, ret, dres, called, dl0, lpar, 
                                  wfor, freeing, badret, vcount, uaf, taint4, 
-                                 taint5, stack, cn, cp, i, klist, w, tn, p, dn, 
-                                 nt, xn, xcl, wn, wp, wdl, fail, fn, fp, fi, 
-                                 fk, cdl, cv, cwk, objs, adl, single, wm, k, 
-                                 rt, cnt, rdy, enq, wq, sdl, scn, sct, sldl, 
-                                 snear, sso, st, pn >>
+                                 taint5, taint6, stack, cn, cp, i, klist, w, 
+                                 tn, p, dn, nt, xn, xcl, wn, wp, wdl, fail, fn, 
+                                 fp, fi, fk, cdl, cv, cwk, objs, adl, single, 
+                                 wm, k, rt, cnt, rdy, enq, wq, sdl, scn, sct, 
+                                 sldl, snear, sso, st, pn >>
 
 wl_0_l(self) == /\ pc[self] = "wl_0_l"
                 /\ k' = [k EXCEPT ![self] = 1]
@@ -1851,11 +1865,11 @@ wl_0_l(self) == /\ pc[self] = "wl_0_l"
                                 nww, sem, cval, cwaited, cq, clk, nwc, cmu, 
                                 badmu, cz, now, ip, ret, dres, called, dl0, 
                                 lpar, wfor, freeing, badret, vcount, uaf, 
-                                taint4, taint5, stack, cn, cp, i, klist, w, tn, 
-                                p, dn, nt, xn, xcl, wn, wp, wdl, fail, fn, fp, 
-                                fi, fk, cdl, cv, cwk, objs, adl, single, wm, 
-                                cnt, rdy, enq, wq, unl, sdl, scn, sct, sldl, 
-                                snear, sso, st, pn >>
+                                taint4, taint5, taint6, stack, cn, cp, i, 
+                                klist, w, tn, p, dn, nt, xn, xcl, wn, wp, wdl, 
+                                fail, fn, fp, fi, fk, cdl, cv, cwk, objs, adl, 
+                                single, wm, cnt, rdy, enq, wq, unl, sdl, scn, 
+                                sct, sldl, snear, sso, st, pn >>
 
 wl_1_l(self) == /\ pc[self] = "wl_1_l"
                 /\ IF k[self] > Len(objs[self])
@@ -1879,11 +1893,11 @@ wl_1_l(self) == /\ pc[self] = "wl_1_l"
                                 nww, sem, cval, cwaited, cq, clk, nwc, cmu, 
                                 badmu, cz, now, ip, ret, dres, called, dl0, 
                                 lpar, wfor, freeing, badret, vcount, uaf, 
-                                taint4, taint5, cn, cp, i, klist, w, tn, p, xn, 
-                                xcl, wn, wp, wdl, fail, fn, fp, fi, fk, cdl, 
-                                cv, cwk, objs, adl, single, wm, k, rt, cnt, 
-                                rdy, enq, wq, unl, sdl, scn, sct, sldl, snear, 
-                                sso, st, pn >>
+                                taint4, taint5, taint6, cn, cp, i, klist, w, 
+                                tn, p, xn, xcl, wn, wp, wdl, fail, fn, fp, fi, 
+                                fk, cdl, cv, cwk, objs, adl, single, wm, k, rt, 
+                                cnt, rdy, enq, wq, unl, sdl, scn, sct, sldl, 
+                                snear, sso, st, pn >>
 
 wl_2_l(self) == /\ pc[self] = "wl_2_l"
                 /\ rt' = [rt EXCEPT ![self] = Min2(rt[self], dres[self])]
@@ -1893,11 +1907,11 @@ wl_2_l(self) == /\ pc[self] = "wl_2_l"
                                 nww, sem, cval, cwaited, cq, clk, nwc, cmu, 
                                 badmu, cz, now, ip, ret, dres, called, dl0, 
                                 lpar, wfor, freeing, badret, vcount, uaf, 
-                                taint4, taint5, stack, cn, cp, i, klist, w, tn, 
-                                p, dn, nt, xn, xcl, wn, wp, wdl, fail, fn, fp, 
-                                fi, fk, cdl, cv, cwk, objs, adl, single, wm, 
-                                cnt, rdy, enq, wq, unl, sdl, scn, sct, sldl, 
-                                snear, sso, st, pn >>
+                                taint4, taint5, taint6, stack, cn, cp, i, 
+                                klist, w, tn, p, dn, nt, xn, xcl, wn, wp, wdl, 
+                                fail, fn, fp, fi, fk, cdl, cv, cwk, objs, adl, 
+                                single, wm, cnt, rdy, enq, wq, unl, sdl, scn, 
+                                sct, sldl, snear, sso, st, pn >>
 
 wl_3_l(self) == /\ pc[self] = "wl_3_l"
                 /\ IF rt[self] = ZERO
@@ -1907,11 +1921,11 @@ wl_3_l(self) == /\ pc[self] = "wl_3_l"
                                 nww, sem, cval, cwaited, cq, clk, nwc, cmu, 
                                 badmu, cz, now, ip, ret, dres, called, dl0, 
                                 lpar, wfor, freeing, badret, vcount, uaf, 
-                                taint4, taint5, stack, cn, cp, i, klist, w, tn, 
-                                p, dn, nt, xn, xcl, wn, wp, wdl, fail, fn, fp, 
-                                fi, fk, cdl, cv, cwk, objs, adl, single, wm, k, 
-                                rt, cnt, rdy, enq, wq, unl, sdl, scn, sct, 
-                                sldl, snear, sso, st, pn >>
+                                taint4, taint5, taint6, stack, cn, cp, i, 
+                                klist, w, tn, p, dn, nt, xn, xcl, wn, wp, wdl, 
+                                fail, fn, fp, fi, fk, cdl, cv, cwk, objs, adl, 
+                                single, wm, k, rt, cnt, rdy, enq, wq, unl, sdl, 
+                                scn, sct, sldl, snear, sso, st, pn >>
 
 wn_7_pd(self) == /\ pc[self] = "wn_7_pd"
                  /\ sem[self] > 0 \/ (rt[self] < NONE /\ now >= rt[self])
@@ -1924,11 +1938,11 @@ wn_7_pd(self) == /\ pc[self] = "wn_7_pd"
                                  nww, cval, cwaited, cq, clk, nwc, cmu, badmu, 
                                  cz, now, ip, ret, dres, called, dl0, lpar, 
                                  wfor, freeing, badret, vcount, uaf, taint4, 
-                                 taint5, stack, cn, cp, i, klist, w, tn, p, dn, 
-                                 nt, xn, xcl, wn, wp, wdl, fail, fn, fp, fi, 
-                                 fk, cdl, cv, cwk, objs, adl, single, wm, k, 
-                                 rt, cnt, rdy, enq, wq, unl, sdl, scn, sct, 
-                                 sldl, snear, sso, st, pn >>
+                                 taint5, taint6, stack, cn, cp, i, klist, w, 
+                                 tn, p, dn, nt, xn, xcl, wn, wp, wdl, fail, fn, 
+                                 fp, fi, fk, cdl, cv, cwk, objs, adl, single, 
+                                 wm, k, rt, cnt, rdy, enq, wq, unl, sdl, scn, 
+                                 sct, sldl, snear, sso, st, pn >>
 
 wd_0_l(self) == /\ pc[self] = "wd_0_l"
                 /\ k' = [k EXCEPT ![self] = 1]
@@ -1938,11 +1952,11 @@ wd_0_l(self) == /\ pc[self] = "wd_0_l"
                                 nww, sem, cval, cwaited, cq, clk, nwc, cmu, 
                                 badmu, cz, now, ip, ret, dres, called, dl0, 
                                 lpar, wfor, freeing, badret, vcount, uaf, 
-                                taint4, taint5, stack, cn, cp, i, klist, w, tn, 
-                                p, dn, nt, xn, xcl, wn, wp, wdl, fail, fn, fp, 
-                                fi, fk, cdl, cv, cwk, objs, adl, single, wm, 
-                                rt, cnt, enq, wq, unl, sdl, scn, sct, sldl, 
-                                snear, sso, st, pn >>
+                                taint4, taint5, taint6, stack, cn, cp, i, 
+                                klist, w, tn, p, dn, nt, xn, xcl, wn, wp, wdl, 
+                                fail, fn, fp, fi, fk, cdl, cv, cwk, objs, adl, 
+                                single, wm, rt, cnt, enq, wq, unl, sdl, scn, 
+                                sct, sldl, snear, sso, st, pn >>
 
 wd_1_l(self) == /\ pc[self] = "wd_1_l"
                 /\ IF k[self] > cnt[self]
@@ -1963,11 +1977,11 @@ wd_1_l(self) == /\ pc[self] = "wd_1_l"
                                 nww, sem, cval, cwaited, cq, clk, nwc, cmu, 
                                 badmu, cz, now, ip, ret, dres, called, dl0, 
                                 lpar, wfor, freeing, badret, vcount, uaf, 
-                                taint4, taint5, cn, cp, i, klist, w, tn, p, xn, 
-                                xcl, wn, wp, wdl, fail, fn, fp, fi, fk, cdl, 
-                                cv, cwk, objs, adl, single, wm, k, rt, cnt, 
-                                rdy, enq, wq, unl, sdl, scn, sct, sldl, snear, 
-                                sso, st, pn >>
+                                taint4, taint5, taint6, cn, cp, i, klist, w, 
+                                tn, p, xn, xcl, wn, wp, wdl, fail, fn, fp, fi, 
+                                fk, cdl, cv, cwk, objs, adl, single, wm, k, rt, 
+                                cnt, rdy, enq, wq, unl, sdl, scn, sct, sldl, 
+                                snear, sso, st, pn >>
 
 nq_2_lk(self) == /\ pc[self] = "nq_2_lk"
                  /\ lk[objs[self][k[self]]] = 0
@@ -1978,11 +1992,11 @@ nq_2_lk(self) == /\ pc[self] = "nq_2_lk"
                                  nww, sem, cval, cwaited, cq, clk, nwc, cmu, 
                                  badmu, cz, now, ip, ret, dres, called, dl0, 
                                  lpar, wfor, freeing, badret, vcount, taint4, 
-                                 taint5, stack, cn, cp, i, klist, w, tn, p, dn, 
-                                 nt, xn, xcl, wn, wp, wdl, fail, fn, fp, fi, 
-                                 fk, cdl, cv, cwk, objs, adl, single, wm, k, 
-                                 rt, cnt, rdy, enq, wq, unl, sdl, scn, sct, 
-                                 sldl, snear, sso, st, pn >>
+                                 taint5, taint6, stack, cn, cp, i, klist, w, 
+                                 tn, p, dn, nt, xn, xcl, wn, wp, wdl, fail, fn, 
+                                 fp, fi, fk, cdl, cv, cwk, objs, adl, single, 
+                                 wm, k, rt, cnt, rdy, enq, wq, unl, sdl, scn, 
+                                 sct, sldl, snear, sso, st, pn >>
 
 nq_3_ld(self) == /\ pc[self] = "nq_3_ld"
                  /\ wq' = [wq EXCEPT ![self] = NTime(objs[self][k[self]]) > ZERO]
@@ -1995,11 +2009,11 @@ nq_3_ld(self) == /\ pc[self] = "nq_3_ld"
                                  sem, cval, cwaited, cq, clk, nwc, cmu, badmu, 
                                  cz, now, ip, ret, dres, called, dl0, lpar, 
                                  wfor, freeing, badret, vcount, uaf, taint4, 
-                                 taint5, stack, cn, cp, i, klist, w, tn, p, dn, 
-                                 nt, xn, xcl, wn, wp, wdl, fail, fn, fp, fi, 
-                                 fk, cdl, cv, cwk, objs, adl, single, wm, k, 
-                                 rt, cnt, rdy, enq, unl, sdl, scn, sct, sldl, 
-                                 snear, sso, st, pn >>
+                                 taint5, taint6, stack, cn, cp, i, klist, w, 
+                                 tn, p, dn, nt, xn, xcl, wn, wp, wdl, fail, fn, 
+                                 fp, fi, fk, cdl, cv, cwk, objs, adl, single, 
+                                 wm, k, rt, cnt, rdy, enq, unl, sdl, scn, sct, 
+                                 sldl, snear, sso, st, pn >>
 
 nq_3_l(self) == /\ pc[self] = "nq_3_l"
                 /\ IF ~wq[self]
@@ -2009,11 +2023,11 @@ nq_3_l(self) == /\ pc[self] = "nq_3_l"
                                 nww, sem, cval, cwaited, cq, clk, nwc, cmu, 
                                 badmu, cz, now, ip, ret, dres, called, dl0, 
                                 lpar, wfor, freeing, badret, vcount, uaf, 
-                                taint4, taint5, stack, cn, cp, i, klist, w, tn, 
-                                p, dn, nt, xn, xcl, wn, wp, wdl, fail, fn, fp, 
-                                fi, fk, cdl, cv, cwk, objs, adl, single, wm, k, 
-                                rt, cnt, rdy, enq, wq, unl, sdl, scn, sct, 
-                                sldl, snear, sso, st, pn >>
+                                taint4, taint5, taint6, stack, cn, cp, i, 
+                                klist, w, tn, p, dn, nt, xn, xcl, wn, wp, wdl, 
+                                fail, fn, fp, fi, fk, cdl, cv, cwk, objs, adl, 
+                                single, wm, k, rt, cnt, rdy, enq, wq, unl, sdl, 
+                                scn, sct, sldl, snear, sso, st, pn >>
 
 nq_4_st(self) == /\ pc[self] = "nq_4_st"
                  /\ nww' = [nww EXCEPT ![self][objs[self][k[self]]] = 0]
@@ -2022,11 +2036,11 @@ nq_4_st(self) == /\ pc[self] = "nq_4_st"
                                  sem, cval, cwaited, cq, clk, nwc, cmu, badmu, 
                                  cz, now, ip, ret, dres, called, dl0, lpar, 
                                  wfor, freeing, badret, vcount, uaf, taint4, 
-                                 taint5, stack, cn, cp, i, klist, w, tn, p, dn, 
-                                 nt, xn, xcl, wn, wp, wdl, fail, fn, fp, fi, 
-                                 fk, cdl, cv, cwk, objs, adl, single, wm, k, 
-                                 rt, cnt, rdy, enq, wq, unl, sdl, scn, sct, 
-                                 sldl, snear, sso, st, pn >>
+                                 taint5, taint6, stack, cn, cp, i, klist, w, 
+                                 tn, p, dn, nt, xn, xcl, wn, wp, wdl, fail, fn, 
+                                 fp, fi, fk, cdl, cv, cwk, objs, adl, single, 
+                                 wm, k, rt, cnt, rdy, enq, wq, unl, sdl, scn, 
+                                 sct, sldl, snear, sso, st, pn >>
 
 nq_5_ul(self) == /\ pc[self] = "nq_5_ul"
                  /\ lk' = [lk EXCEPT ![objs[self][k[self]]] = 0]
@@ -2035,11 +2049,11 @@ nq_5_ul(self) == /\ pc[self] = "nq_5_ul"
                                  nww, sem, cval, cwaited, cq, clk, nwc, cmu, 
                                  badmu, cz, now, ip, ret, dres, called, dl0, 
                                  lpar, wfor, freeing, badret, vcount, uaf, 
-                                 taint4, taint5, stack, cn, cp, i, klist, w, 
-                                 tn, p, dn, nt, xn, xcl, wn, wp, wdl, fail, fn, 
-                                 fp, fi, fk, cdl, cv, cwk, objs, adl, single, 
-                                 wm, k, rt, cnt, rdy, enq, wq, unl, sdl, scn, 
-                                 sct, sldl, snear, sso, st, pn >>
+                                 taint4, taint5, taint6, stack, cn, cp, i, 
+                                 klist, w, tn, p, dn, nt, xn, xcl, wn, wp, wdl, 
+                                 fail, fn, fp, fi, fk, cdl, cv, cwk, objs, adl, 
+                                 single, wm, k, rt, cnt, rdy, enq, wq, unl, 
+                                 sdl, scn, sct, sldl, snear, sso, st, pn >>
 
 nq_6_l(self) == /\ pc[self] = "nq_6_l"
                 /\ IF ~wq[self] /\ rdy[self] = 0
@@ -2052,11 +2066,11 @@ nq_6_l(self) == /\ pc[self] = "nq_6_l"
                                 nww, sem, cval, cwaited, cq, clk, nwc, cmu, 
                                 badmu, cz, now, ip, ret, dres, called, dl0, 
                                 lpar, wfor, freeing, badret, vcount, uaf, 
-                                taint4, taint5, stack, cn, cp, i, klist, w, tn, 
-                                p, dn, nt, xn, xcl, wn, wp, wdl, fail, fn, fp, 
-                                fi, fk, cdl, cv, cwk, objs, adl, single, wm, 
-                                rt, cnt, enq, wq, unl, sdl, scn, sct, sldl, 
-                                snear, sso, st, pn >>
+                                taint4, taint5, taint6, stack, cn, cp, i, 
+                                klist, w, tn, p, dn, nt, xn, xcl, wn, wp, wdl, 
+                                fail, fn, fp, fi, fk, cdl, cv, cwk, objs, adl, 
+                                single, wm, rt, cnt, enq, wq, unl, sdl, scn, 
+                                sct, sldl, snear, sso, st, pn >>
 
 cd_1_lk(self) == /\ pc[self] = "cd_1_lk"
                  /\ clk = 0
@@ -2066,11 +2080,11 @@ cd_1_lk(self) == /\ pc[self] = "cd_1_lk"
                                  nww, sem, cval, cwaited, cq, nwc, cmu, badmu, 
                                  cz, now, ip, ret, dres, called, dl0, lpar, 
                                  wfor, freeing, badret, vcount, uaf, taint4, 
-                                 taint5, stack, cn, cp, i, klist, w, tn, p, dn, 
-                                 nt, xn, xcl, wn, wp, wdl, fail, fn, fp, fi, 
-                                 fk, cdl, cv, cwk, objs, adl, single, wm, k, 
-                                 rt, cnt, rdy, enq, wq, unl, sdl, scn, sct, 
-                                 sldl, snear, sso, st, pn >>
+                                 taint5, taint6, stack, cn, cp, i, klist, w, 
+                                 tn, p, dn, nt, xn, xcl, wn, wp, wdl, fail, fn, 
+                                 fp, fi, fk, cdl, cv, cwk, objs, adl, single, 
+                                 wm, k, rt, cnt, rdy, enq, wq, unl, sdl, scn, 
+                                 sct, sldl, snear, sso, st, pn >>
 
 cd_2_ld(self) == /\ pc[self] = "cd_2_ld"
                  /\ wq' = [wq EXCEPT ![self] = cval # 0]
@@ -2079,11 +2093,11 @@ cd_2_ld(self) == /\ pc[self] = "cd_2_ld"
                                  nww, sem, cval, cwaited, cq, clk, nwc, cmu, 
                                  badmu, cz, now, ip, ret, dres, called, dl0, 
                                  lpar, wfor, freeing, badret, vcount, uaf, 
-                                 taint4, taint5, stack, cn, cp, i, klist, w, 
-                                 tn, p, dn, nt, xn, xcl, wn, wp, wdl, fail, fn, 
-                                 fp, fi, fk, cdl, cv, cwk, objs, adl, single, 
-                                 wm, k, rt, cnt, rdy, enq, unl, sdl, scn, sct, 
-                                 sldl, snear, sso, st, pn >>
+                                 taint4, taint5, taint6, stack, cn, cp, i, 
+                                 klist, w, tn, p, dn, nt, xn, xcl, wn, wp, wdl, 
+                                 fail, fn, fp, fi, fk, cdl, cv, cwk, objs, adl, 
+                                 single, wm, k, rt, cnt, rdy, enq, unl, sdl, 
+                                 scn, sct, sldl, snear, sso, st, pn >>
 
 cd_3_ld(self) == /\ pc[self] = "cd_3_ld"
                  /\ IF nwc[self] # 0
@@ -2095,11 +2109,11 @@ cd_3_ld(self) == /\ pc[self] = "cd_3_ld"
                                  nww, sem, cval, cwaited, clk, nwc, cmu, badmu, 
                                  cz, now, ip, ret, dres, called, dl0, lpar, 
                                  wfor, freeing, badret, vcount, uaf, taint4, 
-                                 taint5, stack, cn, cp, i, klist, w, tn, p, dn, 
-                                 nt, xn, xcl, wn, wp, wdl, fail, fn, fp, fi, 
-                                 fk, cdl, cv, cwk, objs, adl, single, wm, k, 
-                                 rt, cnt, rdy, enq, wq, unl, sdl, scn, sct, 
-                                 sldl, snear, sso, st, pn >>
+                                 taint5, taint6, stack, cn, cp, i, klist, w, 
+                                 tn, p, dn, nt, xn, xcl, wn, wp, wdl, fail, fn, 
+                                 fp, fi, fk, cdl, cv, cwk, objs, adl, single, 
+                                 wm, k, rt, cnt, rdy, enq, wq, unl, sdl, scn, 
+                                 sct, sldl, snear, sso, st, pn >>
 
 cd_4_st(self) == /\ pc[self] = "cd_4_st"
                  /\ nwc' = [nwc EXCEPT ![self] = 0]
@@ -2108,11 +2122,11 @@ cd_4_st(self) == /\ pc[self] = "cd_4_st"
                                  nww, sem, cval, cwaited, cq, clk, cmu, badmu, 
                                  cz, now, ip, ret, dres, called, dl0, lpar, 
                                  wfor, freeing, badret, vcount, uaf, taint4, 
-                                 taint5, stack, cn, cp, i, klist, w, tn, p, dn, 
-                                 nt, xn, xcl, wn, wp, wdl, fail, fn, fp, fi, 
-                                 fk, cdl, cv, cwk, objs, adl, single, wm, k, 
-                                 rt, cnt, rdy, enq, wq, unl, sdl, scn, sct, 
-                                 sldl, snear, sso, st, pn >>
+                                 taint5, taint6, stack, cn, cp, i, klist, w, 
+                                 tn, p, dn, nt, xn, xcl, wn, wp, wdl, fail, fn, 
+                                 fp, fi, fk, cdl, cv, cwk, objs, adl, single, 
+                                 wm, k, rt, cnt, rdy, enq, wq, unl, sdl, scn, 
+                                 sct, sldl, snear, sso, st, pn >>
 
 cd_5_ul(self) == /\ pc[self] = "cd_5_ul"
                  /\ clk' = 0
@@ -2121,11 +2135,11 @@ cd_5_ul(self) == /\ pc[self] = "cd_5_ul"
                                  nww, sem, cval, cwaited, cq, nwc, cmu, badmu, 
                                  cz, now, ip, ret, dres, called, dl0, lpar, 
                                  wfor, freeing, badret, vcount, uaf, taint4, 
-                                 taint5, stack, cn, cp, i, klist, w, tn, p, dn, 
-                                 nt, xn, xcl, wn, wp, wdl, fail, fn, fp, fi, 
-                                 fk, cdl, cv, cwk, objs, adl, single, wm, k, 
-                                 rt, cnt, rdy, enq, wq, unl, sdl, scn, sct, 
-                                 sldl, snear, sso, st, pn >>
+                                 taint5, taint6, stack, cn, cp, i, klist, w, 
+                                 tn, p, dn, nt, xn, xcl, wn, wp, wdl, fail, fn, 
+                                 fp, fi, fk, cdl, cv, cwk, objs, adl, single, 
+                                 wm, k, rt, cnt, rdy, enq, wq, unl, sdl, scn, 
+                                 sct, sldl, snear, sso, st, pn >>
 
 wd_8_l(self) == /\ pc[self] = "wd_8_l"
                 /\ IF ~unl[self]
@@ -2135,11 +2149,11 @@ wd_8_l(self) == /\ pc[self] = "wd_8_l"
                                 nww, sem, cval, cwaited, cq, clk, nwc, cmu, 
                                 badmu, cz, now, ip, ret, dres, called, dl0, 
                                 lpar, wfor, freeing, badret, vcount, uaf, 
-                                taint4, taint5, stack, cn, cp, i, klist, w, tn, 
-                                p, dn, nt, xn, xcl, wn, wp, wdl, fail, fn, fp, 
-                                fi, fk, cdl, cv, cwk, objs, adl, single, wm, k, 
-                                rt, cnt, rdy, enq, wq, unl, sdl, scn, sct, 
-                                sldl, snear, sso, st, pn >>
+                                taint4, taint5, taint6, stack, cn, cp, i, 
+                                klist, w, tn, p, dn, nt, xn, xcl, wn, wp, wdl, 
+                                fail, fn, fp, fi, fk, cdl, cv, cwk, objs, adl, 
+                                single, wm, k, rt, cnt, rdy, enq, wq, unl, sdl, 
+                                scn, sct, sldl, snear, sso, st, pn >>
 
 wu_2_lk(self) == /\ pc[self] = "wu_2_lk"
                  /\ cmu = 0
@@ -2149,11 +2163,11 @@ wu_2_lk(self) == /\ pc[self] = "wu_2_lk"
                                  nww, sem, cval, cwaited, cq, clk, nwc, badmu, 
                                  cz, now, ip, ret, dres, called, dl0, lpar, 
                                  wfor, freeing, badret, vcount, uaf, taint4, 
-                                 taint5, stack, cn, cp, i, klist, w, tn, p, dn, 
-                                 nt, xn, xcl, wn, wp, wdl, fail, fn, fp, fi, 
-                                 fk, cdl, cv, cwk, objs, adl, single, wm, k, 
-                                 rt, cnt, rdy, enq, wq, unl, sdl, scn, sct, 
-                                 sldl, snear, sso, st, pn >>
+                                 taint5, taint6, stack, cn, cp, i, klist, w, 
+                                 tn, p, dn, nt, xn, xcl, wn, wp, wdl, fail, fn, 
+                                 fp, fi, fk, cdl, cv, cwk, objs, adl, single, 
+                                 wm, k, rt, cnt, rdy, enq, wq, unl, sdl, scn, 
+                                 sct, sldl, snear, sso, st, pn >>
 
 wd_9_l(self) == /\ pc[self] = "wd_9_l"
                 /\ badmu' = (badmu \/ (wm[self] /\ cmu # self))
@@ -2175,10 +2189,10 @@ wd_9_l(self) == /\ pc[self] = "wd_9_l"
                 /\ UNCHANGED << live, notified, exp, par, kids, wts, disc, lk, 
                                 nww, sem, cval, cwaited, cq, clk, nwc, cmu, cz, 
                                 now, ip, dres, called, dl0, lpar, wfor, 
-                                freeing, vcount, uaf, taint4, taint5, cn, cp, 
-                                i, klist, w, tn, p, dn, nt, xn, xcl, wn, wp, 
-                                wdl, fail, fn, fp, fi, fk, cdl, cv, cwk, sdl, 
-                                scn, sct, sldl, snear, sso, st, pn >>
+                                freeing, vcount, uaf, taint4, taint5, taint6, 
+                                cn, cp, i, klist, w, tn, p, dn, nt, xn, xcl, 
+                                wn, wp, wdl, fail, fn, fp, fi, fk, cdl, cv, 
+                                cwk, sdl, scn, sct, sldl, snear, sso, st, pn >>
 
 nwaitn(self) == ws_1_l(self) \/ ws_2_l(self) \/ we_1_l(self)
                    \/ wn_1_st(self) \/ ne_1_lk(self) \/ ne_2_ld(self)
@@ -2209,11 +2223,11 @@ sc_0_l(self) == /\ pc[self] = "sc_0_l"
                                 nww, sem, cval, cwaited, cq, clk, nwc, cmu, 
                                 badmu, cz, now, ip, ret, dres, called, dl0, 
                                 lpar, wfor, freeing, badret, vcount, uaf, 
-                                taint4, taint5, cn, cp, i, klist, w, tn, p, xn, 
-                                xcl, wn, wp, wdl, fail, fn, fp, fi, fk, cdl, 
-                                cv, cwk, objs, adl, single, wm, k, rt, cnt, 
-                                rdy, enq, wq, unl, sdl, scn, sct, sldl, snear, 
-                                sso, st, pn >>
+                                taint4, taint5, taint6, cn, cp, i, klist, w, 
+                                tn, p, xn, xcl, wn, wp, wdl, fail, fn, fp, fi, 
+                                fk, cdl, cv, cwk, objs, adl, single, wm, k, rt, 
+                                cnt, rdy, enq, wq, unl, sdl, scn, sct, sldl, 
+                                snear, sso, st, pn >>
 
 sc_1_l(self) == /\ pc[self] = "sc_1_l"
                 /\ IF dres[self] = ZERO
@@ -2225,11 +2239,11 @@ sc_1_l(self) == /\ pc[self] = "sc_1_l"
                                 nww, sem, cval, cwaited, cq, clk, nwc, cmu, 
                                 badmu, cz, now, ip, ret, dres, called, dl0, 
                                 lpar, wfor, freeing, badret, vcount, uaf, 
-                                taint4, taint5, stack, cn, cp, i, klist, w, tn, 
-                                p, dn, nt, xn, xcl, wn, wp, wdl, fail, fn, fp, 
-                                fi, fk, cdl, cv, cwk, objs, adl, single, wm, k, 
-                                rt, cnt, rdy, enq, wq, unl, sdl, scn, sct, 
-                                sldl, snear, st, pn >>
+                                taint4, taint5, taint6, stack, cn, cp, i, 
+                                klist, w, tn, p, dn, nt, xn, xcl, wn, wp, wdl, 
+                                fail, fn, fp, fi, fk, cdl, cv, cwk, objs, adl, 
+                                single, wm, k, rt, cnt, rdy, enq, wq, unl, sdl, 
+                                scn, sct, sldl, snear, st, pn >>
 
 sc_2_st(self) == /\ pc[self] = "sc_2_st"
                  /\ nww' = [nww EXCEPT ![self][scn[self]] = 1]
@@ -2238,11 +2252,11 @@ sc_2_st(self) == /\ pc[self] = "sc_2_st"
                                  sem, cval, cwaited, cq, clk, nwc, cmu, badmu, 
                                  cz, now, ip, ret, dres, called, dl0, lpar, 
                                  wfor, freeing, badret, vcount, uaf, taint4, 
-                                 taint5, stack, cn, cp, i, klist, w, tn, p, dn, 
-                                 nt, xn, xcl, wn, wp, wdl, fail, fn, fp, fi, 
-                                 fk, cdl, cv, cwk, objs, adl, single, wm, k, 
-                                 rt, cnt, rdy, enq, wq, unl, sdl, scn, sct, 
-                                 sldl, snear, sso, st, pn >>
+                                 taint5, taint6, stack, cn, cp, i, klist, w, 
+                                 tn, p, dn, nt, xn, xcl, wn, wp, wdl, fail, fn, 
+                                 fp, fi, fk, cdl, cv, cwk, objs, adl, single, 
+                                 wm, k, rt, cnt, rdy, enq, wq, unl, sdl, scn, 
+                                 sct, sldl, snear, sso, st, pn >>
 
 sc_3_lk(self) == /\ pc[self] = "sc_3_lk"
                  /\ lk[scn[self]] = 0
@@ -2253,11 +2267,11 @@ sc_3_lk(self) == /\ pc[self] = "sc_3_lk"
                                  nww, sem, cval, cwaited, cq, clk, nwc, cmu, 
                                  badmu, cz, now, ip, ret, dres, called, dl0, 
                                  lpar, wfor, freeing, badret, vcount, taint4, 
-                                 taint5, stack, cn, cp, i, klist, w, tn, p, dn, 
-                                 nt, xn, xcl, wn, wp, wdl, fail, fn, fp, fi, 
-                                 fk, cdl, cv, cwk, objs, adl, single, wm, k, 
-                                 rt, cnt, rdy, enq, wq, unl, sdl, scn, sct, 
-                                 sldl, snear, sso, st, pn >>
+                                 taint5, taint6, stack, cn, cp, i, klist, w, 
+                                 tn, p, dn, nt, xn, xcl, wn, wp, wdl, fail, fn, 
+                                 fp, fi, fk, cdl, cv, cwk, objs, adl, single, 
+                                 wm, k, rt, cnt, rdy, enq, wq, unl, sdl, scn, 
+                                 sct, sldl, snear, sso, st, pn >>
 
 sc_4_ld(self) == /\ pc[self] = "sc_4_ld"
                  /\ sct' = [sct EXCEPT ![self] = NTime(scn[self])]
@@ -2274,10 +2288,11 @@ sc_4_ld(self) == /\ pc[self] = "sc_4_ld"
                                  sem, cval, cwaited, cq, clk, nwc, cmu, badmu, 
                                  cz, now, ip, ret, dres, called, dl0, lpar, 
                                  wfor, freeing, badret, vcount, uaf, taint4, 
-                                 taint5, stack, cn, cp, i, klist, w, tn, p, dn, 
-                                 nt, xn, xcl, wn, wp, wdl, fail, fn, fp, fi, 
-                                 fk, cdl, cv, cwk, objs, adl, single, wm, k, 
-                                 rt, cnt, rdy, enq, wq, unl, sdl, scn, st, pn >>
+                                 taint5, taint6, stack, cn, cp, i, klist, w, 
+                                 tn, p, dn, nt, xn, xcl, wn, wp, wdl, fail, fn, 
+                                 fp, fi, fk, cdl, cv, cwk, objs, adl, single, 
+                                 wm, k, rt, cnt, rdy, enq, wq, unl, sdl, scn, 
+                                 st, pn >>
 
 sc_5_ul(self) == /\ pc[self] = "sc_5_ul"
                  /\ lk' = [lk EXCEPT ![scn[self]] = 0]
@@ -2286,11 +2301,11 @@ sc_5_ul(self) == /\ pc[self] = "sc_5_ul"
                                  nww, sem, cval, cwaited, cq, clk, nwc, cmu, 
                                  badmu, cz, now, ip, ret, dres, called, dl0, 
                                  lpar, wfor, freeing, badret, vcount, uaf, 
-                                 taint4, taint5, stack, cn, cp, i, klist, w, 
-                                 tn, p, dn, nt, xn, xcl, wn, wp, wdl, fail, fn, 
-                                 fp, fi, fk, cdl, cv, cwk, objs, adl, single, 
-                                 wm, k, rt, cnt, rdy, enq, wq, unl, sdl, scn, 
-                                 sct, sldl, snear, sso, st, pn >>
+                                 taint4, taint5, taint6, stack, cn, cp, i, 
+                                 klist, w, tn, p, dn, nt, xn, xcl, wn, wp, wdl, 
+                                 fail, fn, fp, fi, fk, cdl, cv, cwk, objs, adl, 
+                                 single, wm, k, rt, cnt, rdy, enq, wq, unl, 
+                                 sdl, scn, sct, sldl, snear, sso, st, pn >>
 
 sc_6_pd(self) == /\ pc[self] = "sc_6_pd"
                  /\ sem[self] > 0 \/ (sldl[self] < NONE /\ now >= sldl[self])
@@ -2304,11 +2319,11 @@ sc_6_pd(self) == /\ pc[self] = "sc_6_pd"
                                  nww, cval, cwaited, cq, clk, nwc, cmu, badmu, 
                                  cz, now, ip, ret, dres, called, dl0, lpar, 
                                  wfor, freeing, badret, vcount, uaf, taint4, 
-                                 taint5, stack, cn, cp, i, klist, w, tn, p, dn, 
-                                 nt, xn, xcl, wn, wp, wdl, fail, fn, fp, fi, 
-                                 fk, cdl, cv, cwk, objs, adl, single, wm, k, 
-                                 rt, cnt, rdy, enq, wq, unl, sdl, scn, sct, 
-                                 sldl, snear, st, pn >>
+                                 taint5, taint6, stack, cn, cp, i, klist, w, 
+                                 tn, p, dn, nt, xn, xcl, wn, wp, wdl, fail, fn, 
+                                 fp, fi, fk, cdl, cv, cwk, objs, adl, single, 
+                                 wm, k, rt, cnt, rdy, enq, wq, unl, sdl, scn, 
+                                 sct, sldl, snear, st, pn >>
 
 sc_6_l(self) == /\ pc[self] = "sc_6_l"
                 /\ IF sso[self] = ETIMEDOUT /\ ~snear[self]
@@ -2327,11 +2342,11 @@ sc_6_l(self) == /\ pc[self] = "sc_6_l"
                                 nww, sem, cval, cwaited, cq, clk, nwc, cmu, 
                                 badmu, cz, now, ip, ret, dres, called, dl0, 
                                 lpar, wfor, freeing, badret, vcount, uaf, 
-                                taint4, taint5, cn, cp, i, klist, w, tn, p, dn, 
-                                nt, wn, wp, wdl, fail, fn, fp, fi, fk, cdl, cv, 
-                                cwk, objs, adl, single, wm, k, rt, cnt, rdy, 
-                                enq, wq, unl, sdl, scn, sct, sldl, snear, st, 
-                                pn >>
+                                taint4, taint5, taint6, cn, cp, i, klist, w, 
+                                tn, p, dn, nt, wn, wp, wdl, fail, fn, fp, fi, 
+                                fk, cdl, cv, cwk, objs, adl, single, wm, k, rt, 
+                                cnt, rdy, enq, wq, unl, sdl, scn, sct, sldl, 
+                                snear, st, pn >>
 
 sc_7_lk(self) == /\ pc[self] = "sc_7_lk"
                  /\ lk[scn[self]] = 0
@@ -2342,11 +2357,11 @@ sc_7_lk(self) == /\ pc[self] = "sc_7_lk"
                                  nww, sem, cval, cwaited, cq, clk, nwc, cmu, 
                                  badmu, cz, now, ip, ret, dres, called, dl0, 
                                  lpar, wfor, freeing, badret, vcount, taint4, 
-                                 taint5, stack, cn, cp, i, klist, w, tn, p, dn, 
-                                 nt, xn, xcl, wn, wp, wdl, fail, fn, fp, fi, 
-                                 fk, cdl, cv, cwk, objs, adl, single, wm, k, 
-                                 rt, cnt, rdy, enq, wq, unl, sdl, scn, sct, 
-                                 sldl, snear, sso, st, pn >>
+                                 taint5, taint6, stack, cn, cp, i, klist, w, 
+                                 tn, p, dn, nt, xn, xcl, wn, wp, wdl, fail, fn, 
+                                 fp, fi, fk, cdl, cv, cwk, objs, adl, single, 
+                                 wm, k, rt, cnt, rdy, enq, wq, unl, sdl, scn, 
+                                 sct, sldl, snear, sso, st, pn >>
 
 sc_8_ld(self) == /\ pc[self] = "sc_8_ld"
                  /\ IF NTime(scn[self]) > ZERO
@@ -2358,11 +2373,11 @@ sc_8_ld(self) == /\ pc[self] = "sc_8_ld"
                                  sem, cval, cwaited, cq, clk, nwc, cmu, badmu, 
                                  cz, now, ip, ret, dres, called, dl0, lpar, 
                                  wfor, freeing, badret, vcount, uaf, taint4, 
-                                 taint5, stack, cn, cp, i, klist, w, tn, p, dn, 
-                                 nt, xn, xcl, wn, wp, wdl, fail, fn, fp, fi, 
-                                 fk, cdl, cv, cwk, objs, adl, single, wm, k, 
-                                 rt, cnt, rdy, enq, wq, unl, sdl, scn, sct, 
-                                 sldl, snear, sso, st, pn >>
+                                 taint5, taint6, stack, cn, cp, i, klist, w, 
+                                 tn, p, dn, nt, xn, xcl, wn, wp, wdl, fail, fn, 
+                                 fp, fi, fk, cdl, cv, cwk, objs, adl, single, 
+                                 wm, k, rt, cnt, rdy, enq, wq, unl, sdl, scn, 
+                                 sct, sldl, snear, sso, st, pn >>
 
 sc_9_ul(self) == /\ pc[self] = "sc_9_ul"
                  /\ lk' = [lk EXCEPT ![scn[self]] = 0]
@@ -2371,11 +2386,11 @@ sc_9_ul(self) == /\ pc[self] = "sc_9_ul"
                                  nww, sem, cval, cwaited, cq, clk, nwc, cmu, 
                                  badmu, cz, now, ip, ret, dres, called, dl0, 
                                  lpar, wfor, freeing, badret, vcount, uaf, 
-                                 taint4, taint5, stack, cn, cp, i, klist, w, 
-                                 tn, p, dn, nt, xn, xcl, wn, wp, wdl, fail, fn, 
-                                 fp, fi, fk, cdl, cv, cwk, objs, adl, single, 
-                                 wm, k, rt, cnt, rdy, enq, wq, unl, sdl, scn, 
-                                 sct, sldl, snear, sso, st, pn >>
+                                 taint4, taint5, taint6, stack, cn, cp, i, 
+                                 klist, w, tn, p, dn, nt, xn, xcl, wn, wp, wdl, 
+                                 fail, fn, fp, fi, fk, cdl, cv, cwk, objs, adl, 
+                                 single, wm, k, rt, cnt, rdy, enq, wq, unl, 
+                                 sdl, scn, sct, sldl, snear, sso, st, pn >>
 
 sc_r_l(self) == /\ pc[self] = "sc_r_l"
                 /\ ret' = [ret EXCEPT ![self] = sso[self]]
@@ -2399,11 +2414,11 @@ sc_r_l(self) == /\ pc[self] = "sc_r_l"
                 /\ UNCHANGED << live, notified, exp, par, kids, wts, disc, lk, 
                                 sem, cval, cwaited, cq, clk, nwc, cmu, badmu, 
                                 cz, now, ip, dres, called, dl0, lpar, wfor, 
-                                freeing, uaf, taint4, taint5, cn, cp, i, klist, 
-                                w, tn, p, dn, nt, xn, xcl, wn, wp, wdl, fail, 
-                                fn, fp, fi, fk, cdl, cv, cwk, objs, adl, 
-                                single, wm, k, rt, cnt, rdy, enq, wq, unl, st, 
-                                pn >>
+                                freeing, uaf, taint4, taint5, taint6, cn, cp, 
+                                i, klist, w, tn, p, dn, nt, xn, xcl, wn, wp, 
+                                wdl, fail, fn, fp, fi, fk, cdl, cv, cwk, objs, 
+                                adl, single, wm, k, rt, cnt, rdy, enq, wq, unl, 
+                                st, pn >>
 
 sc_p_pd(self) == /\ pc[self] = "sc_p_pd"
                  /\ sem[self] > 0 \/ (sdl[self] < NONE /\ now >= sdl[self])
@@ -2417,11 +2432,11 @@ sc_p_pd(self) == /\ pc[self] = "sc_p_pd"
                                  nww, cval, cwaited, cq, clk, nwc, cmu, badmu, 
                                  cz, now, ip, ret, dres, called, dl0, lpar, 
                                  wfor, freeing, badret, vcount, uaf, taint4, 
-                                 taint5, stack, cn, cp, i, klist, w, tn, p, dn, 
-                                 nt, xn, xcl, wn, wp, wdl, fail, fn, fp, fi, 
-                                 fk, cdl, cv, cwk, objs, adl, single, wm, k, 
-                                 rt, cnt, rdy, enq, wq, unl, sdl, scn, sct, 
-                                 sldl, snear, st, pn >>
+                                 taint5, taint6, stack, cn, cp, i, klist, w, 
+                                 tn, p, dn, nt, xn, xcl, wn, wp, wdl, fail, fn, 
+                                 fp, fi, fk, cdl, cv, cwk, objs, adl, single, 
+                                 wm, k, rt, cnt, rdy, enq, wq, unl, sdl, scn, 
+                                 sct, sldl, snear, st, pn >>
 
 swc(self) == sc_0_l(self) \/ sc_1_l(self) \/ sc_2_st(self) \/ sc_3_lk(self)
                 \/ sc_4_ld(self) \/ sc_5_ul(self) \/ sc_6_pd(self)
@@ -2438,11 +2453,12 @@ sv_1_v(self) == /\ pc[self] = "sv_1_v"
                 /\ UNCHANGED << live, notified, exp, par, kids, wts, disc, lk, 
                                 nww, cval, cwaited, cq, clk, nwc, cmu, badmu, 
                                 cz, now, ip, dres, called, dl0, lpar, wfor, 
-                                freeing, badret, uaf, taint4, taint5, cn, cp, 
-                                i, klist, w, tn, p, dn, nt, xn, xcl, wn, wp, 
-                                wdl, fail, fn, fp, fi, fk, cdl, cv, cwk, objs, 
-                                adl, single, wm, k, rt, cnt, rdy, enq, wq, unl, 
-                                sdl, scn, sct, sldl, snear, sso, pn >>
+                                freeing, badret, uaf, taint4, taint5, taint6, 
+                                cn, cp, i, klist, w, tn, p, dn, nt, xn, xcl, 
+                                wn, wp, wdl, fail, fn, fp, fi, fk, cdl, cv, 
+                                cwk, objs, adl, single, wm, k, rt, cnt, rdy, 
+                                enq, wq, unl, sdl, scn, sct, sldl, snear, sso, 
+                                pn >>
 
 semv(self) == sv_1_v(self)
 
@@ -2456,11 +2472,11 @@ ml_1_lk(self) == /\ pc[self] = "ml_1_lk"
                                  nww, sem, cval, cwaited, cq, clk, nwc, badmu, 
                                  cz, now, ip, dres, called, dl0, lpar, wfor, 
                                  freeing, badret, vcount, uaf, taint4, taint5, 
-                                 cn, cp, i, klist, w, tn, p, dn, nt, xn, xcl, 
-                                 wn, wp, wdl, fail, fn, fp, fi, fk, cdl, cv, 
-                                 cwk, objs, adl, single, wm, k, rt, cnt, rdy, 
-                                 enq, wq, unl, sdl, scn, sct, sldl, snear, sso, 
-                                 st, pn >>
+                                 taint6, cn, cp, i, klist, w, tn, p, dn, nt, 
+                                 xn, xcl, wn, wp, wdl, fail, fn, fp, fi, fk, 
+                                 cdl, cv, cwk, objs, adl, single, wm, k, rt, 
+                                 cnt, rdy, enq, wq, unl, sdl, scn, sct, sldl, 
+                                 snear, sso, st, pn >>
 
 mlock(self) == ml_1_lk(self)
 
@@ -2473,11 +2489,11 @@ ml_2_ul(self) == /\ pc[self] = "ml_2_ul"
                                  nww, sem, cval, cwaited, cq, clk, nwc, badmu, 
                                  cz, now, ip, dres, called, dl0, lpar, wfor, 
                                  freeing, badret, vcount, uaf, taint4, taint5, 
-                                 cn, cp, i, klist, w, tn, p, dn, nt, xn, xcl, 
-                                 wn, wp, wdl, fail, fn, fp, fi, fk, cdl, cv, 
-                                 cwk, objs, adl, single, wm, k, rt, cnt, rdy, 
-                                 enq, wq, unl, sdl, scn, sct, sldl, snear, sso, 
-                                 st, pn >>
+                                 taint6, cn, cp, i, klist, w, tn, p, dn, nt, 
+                                 xn, xcl, wn, wp, wdl, fail, fn, fp, fi, fk, 
+                                 cdl, cv, cwk, objs, adl, single, wm, k, rt, 
+                                 cnt, rdy, enq, wq, unl, sdl, scn, sct, sldl, 
+                                 snear, sso, st, pn >>
 
 munlock(self) == ml_2_ul(self)
 
@@ -2494,11 +2510,11 @@ np_0_l(self) == /\ pc[self] = "np_0_l"
                                 nww, sem, cval, cwaited, cq, clk, nwc, cmu, 
                                 badmu, cz, now, ip, ret, dres, called, dl0, 
                                 lpar, wfor, freeing, badret, vcount, uaf, 
-                                taint4, taint5, cn, cp, i, klist, w, tn, p, xn, 
-                                xcl, wn, wp, wdl, fail, fn, fp, fi, fk, cdl, 
-                                cv, cwk, objs, adl, single, wm, k, rt, cnt, 
-                                rdy, enq, wq, unl, sdl, scn, sct, sldl, snear, 
-                                sso, st, pn >>
+                                taint4, taint5, taint6, cn, cp, i, klist, w, 
+                                tn, p, xn, xcl, wn, wp, wdl, fail, fn, fp, fi, 
+                                fk, cdl, cv, cwk, objs, adl, single, wm, k, rt, 
+                                cnt, rdy, enq, wq, unl, sdl, scn, sct, sldl, 
+                                snear, sso, st, pn >>
 
 np_1_l(self) == /\ pc[self] = "np_1_l"
                 /\ ret' = [ret EXCEPT ![self] = IF dres[self] = ZERO THEN 1 ELSE 0]
@@ -2509,11 +2525,11 @@ np_1_l(self) == /\ pc[self] = "np_1_l"
                                 nww, sem, cval, cwaited, cq, clk, nwc, cmu, 
                                 badmu, cz, now, ip, dres, called, dl0, lpar, 
                                 wfor, freeing, badret, vcount, uaf, taint4, 
-                                taint5, cn, cp, i, klist, w, tn, p, dn, nt, xn, 
-                                xcl, wn, wp, wdl, fail, fn, fp, fi, fk, cdl, 
-                                cv, cwk, objs, adl, single, wm, k, rt, cnt, 
-                                rdy, enq, wq, unl, sdl, scn, sct, sldl, snear, 
-                                sso, st >>
+                                taint5, taint6, cn, cp, i, klist, w, tn, p, dn, 
+                                nt, xn, xcl, wn, wp, wdl, fail, fn, fp, fi, fk, 
+                                cdl, cv, cwk, objs, adl, single, wm, k, rt, 
+                                cnt, rdy, enq, wq, unl, sdl, scn, sct, sldl, 
+                                snear, sso, st >>
 
 npoll(self) == np_0_l(self) \/ np_1_l(self)
 
@@ -2819,8 +2835,8 @@ c0(self) == /\ pc[self] = "c0"
             /\ UNCHANGED << live, notified, exp, par, kids, wts, disc, lk, nww, 
                             sem, cval, cwaited, cq, clk, nwc, cmu, badmu, cz, 
                             now, ret, dres, called, dl0, lpar, wfor, freeing, 
-                            badret, vcount, uaf, taint4, taint5, cn, cp, i, 
-                            klist, w, tn, p, dn, nt >>
+                            badret, vcount, uaf, taint4, taint5, taint6, cn, 
+                            cp, i, klist, w, tn, p, dn, nt >>
 
 thr(self) == c0(self)
 
@@ -2852,7 +2868,7 @@ TickUseful == \/ \E u \in Threads : pc[u] = "wn_7_pd" /\ rt[u] < NONE /\ rt[u] >
               \/ \E n \in Notes : live[n] = "live" /\ notified[n] = 0 /\ exp[n] < NONE /\ exp[n] > now
 Tick == /\ now < MaxNow /\ TickUseful
         /\ now' = now + 1
-        /\ UNCHANGED <<pc, live, notified, exp, par, kids, wts, disc, lk, nww, sem, cval, cwaited, cq, clk, nwc, cmu, badmu, cz, ip, ret, dres, called, dl0, lpar, wfor, freeing, badret, vcount, uaf, taint4, taint5, stack, cn, cp, i, klist, w, tn, p, dn, nt, xn, xcl, wn, wp, wdl, fail, fn, fp, fi, fk, cdl, cv, cwk, objs, adl, single, wm, k, rt, cnt, rdy, enq, wq, unl, sdl, scn, sct, sldl, snear, sso, st, pn>>
+        /\ UNCHANGED <<pc, live, notified, exp, par, kids, wts, disc, lk, nww, sem, cval, cwaited, cq, clk, nwc, cmu, badmu, cz, ip, ret, dres, called, dl0, lpar, wfor, freeing, badret, vcount, uaf, taint4, taint5, taint6, stack, cn, cp, i, klist, w, tn, p, dn, nt, xn, xcl, wn, wp, wdl, fail, fn, fp, fi, fk, cdl, cv, cwk, objs, adl, single, wm, k, rt, cnt, rdy, enq, wq, unl, sdl, scn, sct, sldl, snear, sso, st, pn>>
 LocalPending == {u \in Threads : pc[u] \in LocalLabels}
 NextU == IF LocalPending # {} THEN Step(CHOOSE u \in LocalPending : TRUE)
          ELSE (\E self \in Threads : Step(self)) \/ Tick
@@ -2902,7 +2918,7 @@ Obs == [live |-> [n \in Notes |-> IF live'[n] = "live" THEN 1 ELSE IF live'[n] =
         lk |-> [n \in Notes |-> IF L(n) THEN lk'[n] ELSE 0],
         nww |-> nww', sem |-> sem', now |-> now', ret |-> ret',
         cval |-> cval', cq |-> cq', clk |-> clk', nwc |-> nwc', cmu |-> cmu',
-        bad |-> BadSet', done |-> AllDone', taint4 |-> taint4', taint5 |-> taint5']
+        bad |-> BadSet', done |-> AllDone', taint4 |-> taint4', taint5 |-> taint5', taint6 |-> taint6']
 Edge == (vars # vars') =>
           PrintT(ToJson(<<"E", TLCFP(vars), TLCFP(<<vars, 1>>), TLCFP(vars'), TLCFP(<<vars', 1>>),
                           Actor, IF Actor = 0 THEN "Tick" ELSE pc[Actor], Obs>>))
